@@ -3,6 +3,8 @@ package rules
 import (
 	"fmt"
 	"go/token"
+	"go/types"
+	"os"
 	"sort"
 	"strings"
 
@@ -12,7 +14,12 @@ import (
 	"charonverif/internal/rt"
 )
 
-// C13 — DKG reliable broadcast (package dkg/bcast). Rules B1..B6 of DESIGN §5.
+// C13 — DKG reliable broadcast (package dkg/bcast). Rules B1..B6 of DESIGN §5, reformulated as predicates over
+// the event sequences of symbolic paths (toolkit in c13h.go, walker an.Tracer) so that they are independent of how
+// the code is cut into helpers, closures, named booleans, switch/if chains, loop forms and defer/explicit unlock.
+// Roles are recognised by resolved entities only: named function types (Callback, CheckMessage, hashFunc, signFunc,
+// verifyFunc, p2p.SendFunc), struct fields (server.dedup, server.msgIDFuncs, Component.allowedMsgIDs, Component.peers,
+// client.peers, client.p2pNode), static callees (k1util.Verify65/Sign, p2p.PeerIDToKey, anypb getters, sha256.New ...).
 
 const (
 	c13Pkg    = "dkg/bcast"
@@ -27,14 +34,19 @@ func init() {
 	const srv, cli, impl = "dkg/bcast/server.go", "dkg/bcast/client.go", "dkg/bcast/impl.go"
 	Register(&Prop{
 		ID: "C13",
-		Decides: "dkg/bcast: (B1) a registered callback is invoked only after verifyFunc succeeded on the very (id, any-message) whose UnmarshalNew is delivered, " +
-			"looked up under the same id; (B2) the signature handler signs only the hashFunc output of the checked (id, message), after dedupHash accepted that hash for (sender, id), " +
-			"and dedupHash stores a hash only if no different hash was stored before; (B3) the verifier accepts only if len(sigs)==len(peers), the id is allow-listed, " +
-			"and every sigs[i] verifies against peers[i] over the session-bound hash of (id, message); the signer signs only allow-listed ids; New wires one hash/sign/verify triple into client and server; " +
-			"(B4) the hash absorbs session hash, id, type URL and value, each length-prefixed; (B5) dedup/msgIDFuncs/allowedMsgIDs only under their mutexes, dedup lookup+store in one critical section; " +
-			"(B6) the client sends exactly the (id, message, signatures) it verified, the local signature being over the hash of that message at the local index.",
+		Decides: "dkg/bcast, decided on the event sequences of all paths (in-package helpers, closures, bound methods and defers stepped into): " +
+			"(B1) a registered callback runs only after verifyFunc returned nil on the very (id, any-message) whose UnmarshalNew is delivered, the registry being consulted under that id only; " +
+			"(B2) the signature handler signs only the hashFunc output of the (id, message) that the registered checkMessage accepted, after that hash was recorded in (or found equal to the entry of) server.dedup under a key bound to (sender, id); " +
+			"a dedup entry is written only if a lookup of the same key said absent or the entry found equals the hash written; " +
+			"(B3) the verifier accepts only if len(sigs)==len(peers), the id is present in the allow-list, and every sigs[i] verifies (ok, nil error) against PeerIDToKey(peers[i]) over the hash that the hash function handed to newPeerK1Verifier " +
+			"computes for (id, message); the signer signs only the hash it is given and only for allow-listed ids; New builds server and client objects holding one (hash, sign, verify) triple whose hash closure is bound to the session hash, whose verifier is " +
+			"bound to that hash closure, signer and verifier being bound to the returned component whose peer list is the client's; " +
+			"(B4) on every successful path the hasher absorbs exactly pairs (length of field, field), the fields including session hash, id, type URL and value, every successful path absorbing the same fields, the result being Sum of that hasher; " +
+			"(B5) dedup/msgIDFuncs/allowedMsgIDs only under their mutexes, no unlock between the dedup lookup and the store it guards (followed into callers); " +
+			"(B6) the client sends exactly the (id, message, signatures) it verified, the local signature being over the hash of that message, stored in the verified list at the index i with peers[i]==p2pNode.ID().",
 		NotDecided: "the agreement conclusion itself (no two members deliver different payloads), secp256k1 arithmetic, that the signed hash does not bind the originating sender " +
-			"(left to application callbacks), the redundant length-65 test (k1util.Recover rejects other lengths), checkMessage/callback bodies.",
+			"(left to application callbacks), the redundant length-65 test (k1util.Recover rejects other lengths), checkMessage/callback bodies, the errors of writes into a hash.Hash (never non-nil); " +
+			"loops are unrolled to a bound (verifier: up to two signatures; hash: up to seven fields), collections whose length the path does not determine give UNDECIDED.",
 		Run: c13,
 		Mutants: []Mutant{
 			// ---- B1
@@ -166,12 +178,94 @@ func init() {
 			{ID: "C13-B6-sign-truncated-hash", File: cli, Expect: "B6|local signature",
 				Old: "c.signFunc(msgID, hash)",
 				New: "c.signFunc(msgID, hash[:len(hash)/2])"},
+			// ---- added with the path-based reformulation (mechanisms that are now decided on event sequences)
+			{ID: "C13-B1-lookup-other-id", File: srv, Expect: "B1|callback lookup id",
+				Old: "fn, found := s.getMessageIDFunc(msg.GetId())",
+				New: "fn, found := s.getMessageIDFunc(msg.GetMessage().GetTypeUrl())"},
+			{ID: "C13-B1-verify-in-goroutine", File: srv, Expect: "B1|verifyFunc→callback",
+				Old: "\tif err := s.verifyFunc(msg.GetId(), msg.GetMessage(), msg.GetSignatures()); err != nil {\n\t\treturn nil, false, errors.Wrap(err, \"verify signatures\")\n\t}\n",
+				New: "\tgo func() { _ = s.verifyFunc(msg.GetId(), msg.GetMessage(), msg.GetSignatures()) }()\n"},
+			{ID: "C13-B1-deliver-raw-any", File: srv, Expect: "B1|payload",
+				Old:  "fn.callback(ctx, pID, msg.GetId(), inner)",
+				New:  "fn.callback(ctx, pID, msg.GetId(), msg.GetMessage())",
+				More: [][2]string{{"\tinner, err := msg.GetMessage().UnmarshalNew()\n\tif err != nil {", "\t_, err := msg.GetMessage().UnmarshalNew()\n\tif err != nil {"}}},
+			{ID: "C13-B2-check-lookup-other-id", File: srv, Expect: "B2|checkMessage→signFunc",
+				Old: "fn, found := s.getMessageIDFunc(req.GetId())",
+				New: "fn, found := s.getMessageIDFunc(req.GetMessage().GetTypeUrl())"},
+			{ID: "C13-B2-check-other-message", File: srv, Expect: "B2|checkMessage→signFunc",
+				Old: "fn.checkMessage(ctx, pID, req.GetMessage())",
+				New: "fn.checkMessage(ctx, pID, (*pb.BCastSigRequest)(nil).GetMessage())"},
+			{ID: "C13-B2-dedup-accepts-mismatch", File: srv, Expect: "B2|dedupHash",
+				Old: "\t\treturn errors.New(\"duplicate ID, mismatching hash\")",
+				New: "\t\treturn nil"},
+			{ID: "C13-B2-dedup-other-peer", File: srv, Expect: "B2|dedupHash→signFunc",
+				Old: "s.dedupHash(pID, req.GetId(), reqMessageHash)",
+				New: "s.dedupHash(\"\", req.GetId(), reqMessageHash)"},
+			{ID: "C13-B2-dedup-async", File: srv, Expect: "B2|dedupHash→signFunc",
+				Old: "\tif err := s.dedupHash(pID, req.GetId(), reqMessageHash); err != nil {\n\t\treturn nil, false, errors.Wrap(err, \"dedup\")\n\t}\n",
+				New: "\tgo func() { _ = s.dedupHash(pID, req.GetId(), reqMessageHash) }()\n"},
+			{ID: "C13-B2-dedup-key-without-id", File: srv, Expect: "B2|dedupHash→signFunc",
+				Old: "key := dedupKey{PeerID: pID, MsgID: msgID}",
+				New: "key := dedupKey{PeerID: pID}"},
+			{ID: "C13-B3-verify-first-sig-only", File: impl, Expect: "B3|every signature checked",
+				Old: "k1util.Verify65(pubkey, hash, sig)",
+				New: "k1util.Verify65(pubkey, hash, sigs[0])"},
+			{ID: "C13-B3-allowlist-other-key", File: impl, Expect: "B3|verifier msgIDAllowed",
+				Old: "_, allowed := c.allowedMsgIDs[msgID]",
+				New: "_, allowed := c.allowedMsgIDs[\"\"]"},
+			{ID: "C13-B3-allowlist-result-inverted", File: impl, Expect: "B3|signer",
+				Old: "\t\tif !c.msgIDAllowed(msgID) {\n\t\t\treturn nil, errors.New(\"invalid message id\")",
+				New: "\t\tif c.msgIDAllowed(msgID) {\n\t\t\treturn nil, errors.New(\"invalid message id\")"},
+			{ID: "C13-B3-signer-signs-id", File: impl, Expect: "B3|signer",
+				Old: "k1util.Sign(c.secret, hash)",
+				New: "k1util.Sign(c.secret, []byte(msgID))"},
+			{ID: "C13-B3-hash-error-dropped", File: impl, Expect: "B3|hash provenance",
+				Old: "\t\t\treturn errors.Wrap(err, \"hash any\")\n\t\t}\n\n\t\tfor i, sig := range sigs {",
+				New: "\t\t\t_ = errors.Wrap(err, \"hash any\")\n\t\t}\n\n\t\tfor i, sig := range sigs {"},
+			{ID: "C13-B4-prefix-after-field", File: impl, Expect: "B4|length prefix",
+				Old: "\t\t\tif err := binary.Write(h, binary.BigEndian, uint64(len(field))); err != nil {\n\t\t\t\treturn nil, errors.Wrap(err, \"write field length\")\n\t\t\t}\n\n\t\t\tif _, err := h.Write(field); err != nil {\n\t\t\t\treturn nil, errors.Wrap(err, \"write field\")\n\t\t\t}\n",
+				New: "\t\t\tif _, err := h.Write(field); err != nil {\n\t\t\t\treturn nil, errors.Wrap(err, \"write field\")\n\t\t\t}\n\n\t\t\tif err := binary.Write(h, binary.BigEndian, uint64(len(field))); err != nil {\n\t\t\t\treturn nil, errors.Wrap(err, \"write field length\")\n\t\t\t}\n"},
+			{ID: "C13-B4-other-digest", File: impl, Expect: "B4|result is the digest",
+				Old: "return h.Sum(nil), nil",
+				New: "return sha256.New().Sum(nil), nil"},
+			{ID: "C13-B4-break-after-first", File: impl, Expect: "B4|every field",
+				Old: "\t\t\t\treturn nil, errors.Wrap(err, \"write field\")\n\t\t\t}\n",
+				New: "\t\t\t\treturn nil, errors.Wrap(err, \"write field\")\n\t\t\t}\n\n\t\t\tif len(anyPB.GetValue()) == 0 {\n\t\t\t\tbreak\n\t\t\t}\n"},
+			{ID: "C13-B5-dedup-relock-in-closure", File: srv, Expect: "B5",
+				Old: "\ts.dedup[key] = hash\n",
+				New: "\tfunc() { s.mu.Unlock(); s.mu.Lock() }()\n\ts.dedup[key] = hash\n"},
+			{ID: "C13-B6-verify-after-send", File: cli, Expect: "B6|verifyFunc→sendFunc",
+				Old:  "\tif err := c.verifyFunc(msgID, anyMsg, sigs); err != nil {\n\t\treturn errors.Wrap(err, \"verify signatures\")\n\t}\n",
+				New:  "",
+				More: [][2]string{{"\t\t\treturn errors.Wrap(err, \"send message\")\n\t\t}\n\t}\n\n\treturn nil", "\t\t\treturn errors.Wrap(err, \"send message\")\n\t\t}\n\t}\n\n\treturn c.verifyFunc(msgID, anyMsg, sigs)"}}},
+			{ID: "C13-B6-send-other-message", File: cli, Expect: "B6|sent message",
+				Old: "Message:    anyMsg,",
+				New: "Message:    &anypb.Any{},"},
+			{ID: "C13-B6-local-hash-error-dropped", File: cli, Expect: "B6|local signature",
+				Old: "\thash, err := c.hashFunc(msgID, anyMsg)\n\tif err != nil {\n\t\treturn errors.Wrap(err, \"hash any\")\n\t}\n",
+				New: "\thash, _ := c.hashFunc(msgID, anyMsg)\n"},
+			{ID: "C13-B6-local-sig-for-every-peer", File: cli, Expect: "B6|local signature",
+				Old: "\t\tif c.p2pNode.ID() == pID {\n\t\t\t// Sign self locally.",
+				New: "\t\tif c.p2pNode.ID() != \"\" {\n\t\t\t// Sign self locally."},
+			{ID: "C13-B3-wiring-client-other-peers", File: impl, Expect: "B3|New wiring",
+				Old: "newClient(p2pNode, peers, p2p.SendReceive",
+				New: "newClient(p2pNode, peers[1:], p2p.SendReceive"},
+			{ID: "C13-B3-wiring-signer-of-other-component", File: impl, Expect: "B3|New wiring",
+				Old: "signFunc := c.newK1Signer()",
+				New: "signFunc := (&Component{allowedMsgIDs: map[string]struct{}{\"\": {}}, secret: secret}).newK1Signer()"},
+			{ID: "C13-B3-wiring-server-hash-unbound", File: impl, Expect: "B3|New wiring",
+				Old: "newServer(p2pNode, signFunc, hashFunc, verifyFunc)",
+				New: "newServer(p2pNode, signFunc, newHashAny(nil), verifyFunc)"},
+			{ID: "C13-B3-wiring-component-other-peers", File: impl, Expect: "B3|New wiring",
+				Old: "\t\tpeers:         peers,\n",
+				New: "\t\tpeers:         append([]peer.ID{}, peers[1:]...),\n"},
 		},
 	})
 }
 
 // ---------------------------------------------------------------------------------------------
-// helpers (all prefixed c13)
+// static helpers (wiring in New, constructors, lock discipline); the behavioural rules use the path
+// toolkit of c13h.go
 
 // c13Binding returns the value bound to free variable fv where its closure is created.
 func c13Binding(fv *ssa.FreeVar) ssa.Value {
@@ -272,100 +366,7 @@ func c13Origin(v ssa.Value) ssa.Value {
 	return v
 }
 
-// c13Same: two operands denote the same value (after looking through single-assignment cells).
-func c13Same(a, b ssa.Value) bool {
-	return an.Equiv(a, b) || an.Equiv(c13Origin(a), c13Origin(b))
-}
-
-// c13Is: v is value p (a parameter, typically) possibly through a single-assignment cell.
-func c13Is(v, p ssa.Value) bool { return an.Unwrap(v) == p || c13Origin(v) == p }
-
-// c13LenArg: v == len(x) -> x.
-func c13LenArg(v ssa.Value) ssa.Value {
-	if call, ok := an.Unwrap(v).(*ssa.Call); ok {
-		if b, ok := call.Call.Value.(*ssa.Builtin); ok && b.Name() == "len" && len(call.Call.Args) == 1 {
-			return call.Call.Args[0]
-		}
-	}
-	return nil
-}
-
-// c13FieldLoad: v is a load of the named struct field.
-func c13FieldLoad(v ssa.Value, key string) bool {
-	in, ok := an.Unwrap(v).(ssa.Instruction)
-	return ok && isLoadOfField(in, key)
-}
-
-// c13RetVal returns the value returned at result idx, looking through the spill cell that a
-// `defer` introduces for results (last store in the returning block).
-func c13RetVal(r *ssa.Return, idx int) ssa.Value {
-	if idx >= len(r.Results) {
-		return nil
-	}
-	v := r.Results[idx]
-	if u, ok := v.(*ssa.UnOp); ok && u.Op == token.MUL {
-		if a, ok := u.X.(*ssa.Alloc); ok {
-			ins := r.Block().Instrs
-			for i := len(ins) - 1; i >= 0; i-- {
-				if st, ok := ins[i].(*ssa.Store); ok && st.Addr == ssa.Value(a) {
-					return st.Val
-				}
-			}
-			return nil
-		}
-	}
-	return v
-}
-
-// c13Exits classifies the returns of fn by their error result (index errIdx): accepting
-// (nil), rejecting (provably non-nil) and unclassified.
-func c13Exits(fn *ssa.Function, errIdx int) (accept, reject, unknown []*ssa.Return) {
-	for _, r := range an.Returns(fn) {
-		if fn.Recover != nil && r.Block() == fn.Recover {
-			continue
-		}
-		v := c13RetVal(r, errIdx)
-		switch {
-		case v == nil:
-			unknown = append(unknown, r)
-		case an.IsNilConst(v):
-			accept = append(accept, r)
-		case c13NonNil(fn, v, r):
-			reject = append(reject, r)
-		default:
-			unknown = append(unknown, r)
-		}
-	}
-	return
-}
-
-// c13NonNil: error value v is non-nil at return r: built by app/errors.New/Wrap, or r lies on
-// the `v != nil` edge of a test of v.
-func c13NonNil(fn *ssa.Function, v ssa.Value, r *ssa.Return) bool {
-	if call, ok := v.(*ssa.Call); ok && an.Static("app/errors.New", "app/errors.Wrap")(&call.Call) {
-		return true
-	}
-	for _, cd := range an.CondsOn(fn, v) {
-		if cd.Other == nil || !an.IsNilConst(cd.Other) {
-			continue
-		}
-		var nn *ssa.BasicBlock
-		switch cd.Op {
-		case token.NEQ:
-			nn = cd.Succ(true)
-		case token.EQL:
-			nn = cd.Succ(false)
-		default:
-			continue
-		}
-		if len(nn.Preds) == 1 && nn.Dominates(r.Block()) {
-			return true
-		}
-	}
-	return false
-}
-
-// c13Returned resolves the single function literal that fn returns.
+// c13Returned resolves the single function (literal, bound method or named function) that fn returns.
 func c13Returned(c *rt.Ctx, fn *ssa.Function) *ssa.Function {
 	var out *ssa.Function
 	for _, r := range an.Returns(fn) {
@@ -373,472 +374,833 @@ func c13Returned(c *rt.Ctx, fn *ssa.Function) *ssa.Function {
 			c.Bail("%s: expected one result", an.FuncName(fn))
 		}
 		var f *ssa.Function
-		switch x := an.Unwrap(r.Results[0]).(type) {
+		switch x := c13Origin(returnValues(r)[0]).(type) {
 		case *ssa.MakeClosure:
 			f, _ = x.Fn.(*ssa.Function)
-		case *ssa.Function: // literal without free variables
-			if x.Parent() == fn {
-				f = x
-			}
+		case *ssa.Function:
+			f = x
 		}
-		if f == nil {
-			c.Bail("%s does not return a function literal", an.FuncName(fn))
+		if f == nil || len(f.Blocks) == 0 {
+			c.Bail("%s does not return a function whose body is known", an.FuncName(fn))
 		}
 		if out != nil && out != f {
-			c.Bail("%s returns more than one function literal", an.FuncName(fn))
+			c.Bail("%s returns more than one function", an.FuncName(fn))
 		}
 		out = f
 	}
 	if out == nil {
-		c.Bail("%s returns no function literal", an.FuncName(fn))
+		c.Bail("%s returns no function", an.FuncName(fn))
 	}
 	return out
 }
 
-// c13LookupID: fnVal is a function value loaded from a field of a messageIDFuncs value; returns
-// the id argument of the getMessageIDFunc call that produced that value (nil if not traceable).
-func c13LookupID(fnVal ssa.Value) ssa.Value {
-	_, base, ok := an.FieldOf(fnVal)
-	if !ok {
-		return nil
+// c13Outer returns the outermost enclosing function.
+func c13Outer(fn *ssa.Function) *ssa.Function {
+	for fn.Parent() != nil {
+		fn = fn.Parent()
 	}
-	if a, isAlloc := base.(*ssa.Alloc); isAlloc {
-		base = c13UniqueStore(a)
-		if base == nil {
-			return nil
-		}
-	}
-	ex, ok := an.Unwrap(base).(*ssa.Extract)
-	if !ok || ex.Index != 0 {
-		return nil
-	}
-	call, ok := ex.Tuple.(*ssa.Call)
-	if !ok || !an.Static(c13Srv+".getMessageIDFunc")(&call.Call) || len(call.Call.Args) != 2 {
-		return nil
-	}
-	return call.Call.Args[1]
+	return fn
 }
 
-// c13ResultOf: v is result #idx of call (tuple extract, or the value itself for single results).
-func c13ResultOf(v ssa.Value, call ssa.CallInstruction, idx int) bool {
-	v = an.Unwrap(v)
-	if call.Value() == nil {
-		return false
-	}
-	if ex, ok := v.(*ssa.Extract); ok {
-		return ex.Tuple == ssa.Value(call.Value()) && ex.Index == idx
-	}
-	return idx == 0 && v == ssa.Value(call.Value()) && call.Common().Signature().Results().Len() == 1
-}
-
-// c13LoopIndex returns the index value of a range-over-slice loop (`i` of the header test i < len).
-func c13LoopIndex(l *an.Loop) ssa.Value {
-	for _, in := range l.Header.Instrs {
-		if iff, ok := in.(*ssa.If); ok {
-			if bin, ok := iff.Cond.(*ssa.BinOp); ok && bin.Op == token.LSS {
-				return bin.X
+// c13DynSites lists the dynamic calls in the package whose function value has the named type.
+func c13DynSites(c *rt.Ctx, typ string) []ssa.CallInstruction {
+	var out []ssa.CallInstruction
+	for _, fn := range an.PkgFuncs(c.SSAPkg(c13Pkg)) {
+		for _, in := range an.Instrs(fn, false) {
+			ci, ok := in.(ssa.CallInstruction)
+			if !ok {
+				continue
+			}
+			cc := ci.Common()
+			if cc.IsInvoke() || cc.StaticCallee() != nil {
+				continue
+			}
+			if _, isB := cc.Value.(*ssa.Builtin); isB {
+				continue
+			}
+			if an.TypeName(cc.Value.Type()) == typ {
+				out = append(out, ci)
 			}
 		}
 	}
-	return nil
+	return out
 }
 
-// c13ElemIndex: v is (a load of) coll[idx] -> coll, idx.
-func c13ElemIndex(v ssa.Value) (coll, idx ssa.Value) {
-	v = an.Unwrap(v)
-	if u, ok := v.(*ssa.UnOp); ok && u.Op == token.MUL {
-		if ia, ok := u.X.(*ssa.IndexAddr); ok {
-			return ia.X, ia.Index
+const (
+	c13TCallback = c13Pkg + ".Callback"
+	c13TCheck    = c13Pkg + ".CheckMessage"
+	c13THash     = c13Pkg + ".hashFunc"
+	c13TSign     = c13Pkg + ".signFunc"
+	c13TVerify   = c13Pkg + ".verifyFunc"
+	c13TSend     = "p2p.SendFunc"
+)
+
+// origin classes of a symbol that is not what a rule expected
+const (
+	c13Known   = iota // built on the path by operations the walker models: definitely something else
+	c13Unknown        // loaded from memory or produced outside the walker's view: cannot tell
+)
+
+func (p *c13P) originClass(s *an.Sym) int {
+	if s == nil {
+		return c13Unknown
+	}
+	switch s.Kind {
+	case an.KInit, an.KParam:
+		return c13Unknown
+	case an.KOpaque:
+		if _, ok := p.def[s.Key()]; ok {
+			return c13Known
+		}
+		return c13Unknown
+	case an.KExtract:
+		if len(s.Args) == 1 {
+			return p.originClass(s.Args[0])
 		}
 	}
-	if ix, ok := v.(*ssa.Index); ok {
-		return ix.X, ix.Index
+	return c13Known
+}
+
+// ---------------------------------------------------------------------------------------------
+
+func c13(c *rt.Ctx) {
+	if os.Getenv("C13_TRACE") != "" {
+		for _, n := range strings.Split(os.Getenv("C13_TRACE"), ",") {
+			if f := c.FnOpt(n); f != nil {
+				c13Trace(f, 3)
+			}
+		}
+		os.Unsetenv("C13_TRACE")
+	}
+	c.Rule("B1", 4, func() { c13B1(c) })
+	c.Rule("B2", 4, func() { c13B2(c) })
+	c.Rule("B3", 10, func() { c13B3(c) })
+	c.Rule("B4", 7, func() { c13B4(c) })
+	c.Rule("B5", 9, func() { c13B5(c) })
+	c.Rule("B6", 3, func() { c13B6(c) })
+}
+
+// c13Lookups lists the positions (< before) of the lookups into the map held in struct field `field`.
+func (p *c13P) lookupsOf(field string, before int) []int {
+	var out []int
+	for j, e := range p.Evs {
+		if j >= before {
+			break
+		}
+		if e.Kind == "lookup" && len(e.Args) == 2 && e.Args[0].FieldName() == field {
+			out = append(out, j)
+		}
+	}
+	return out
+}
+
+// c13Roots runs eval on root and then on the outermost function of every site the walk from root did not
+// execute; sites that no walk reaches are reported undecided under construct k.
+func c13Roots(c *rt.Ctx, agg *h1617Agg, root *ssa.Function, sites []ssa.CallInstruction, k string, eval func(root *ssa.Function) *c13T) {
+	visited := map[ssa.Instruction]bool{}
+	done := map[*ssa.Function]bool{}
+	run := func(r *ssa.Function) {
+		if done[r] {
+			return
+		}
+		done[r] = true
+		if t := eval(r); t != nil {
+			for in := range t.res.Visited {
+				visited[in] = true
+			}
+		}
+	}
+	run(root)
+	for _, s := range sites {
+		if !visited[s] {
+			run(c13Outer(s.Parent()))
+		}
+	}
+	for _, s := range sites {
+		if !visited[s] {
+			agg.unsure(c13ShortName(c13Outer(s.Parent()))+" "+k, s.Pos(), "call site is not reached by the path enumeration (function literal that escapes, or unreachable code)")
+		}
+	}
+}
+
+// B1: every invocation of a registered callback is preceded, on every path, by a verifyFunc call on the same
+// (id, message) whose error is known to be nil; the payload is UnmarshalNew of that message (error nil); the
+// registry of callbacks is consulted under that id only.
+func c13B1(c *rt.Ctx) {
+	hm := c.Fn(c13Srv + ".handleMessage")
+	sites := c13DynSites(c, c13TCallback)
+	if len(sites) == 0 {
+		c.Bail("no call of a Callback value in dkg/bcast")
+	}
+	agg := newAgg(c)
+	seen := 0
+	c13Roots(c, agg, hm, sites, "verifyFunc→callback", func(root *ssa.Function) *c13T {
+		name := c13ShortName(root)
+		t := c13Trace(root, 3)
+		if !t.usable() {
+			agg.unsure(name+" verifyFunc→callback", root.Pos(), "path enumeration failed")
+			return t
+		}
+		for _, p := range t.paths {
+			for i, e := range p.Evs {
+				if e.Kind != "call" || c13Role(e) != c13TCallback {
+					continue
+				}
+				if root == hm {
+					seen++
+				}
+				pos := e.In.Pos()
+				if len(e.Args) != 4 {
+					agg.unsure(name+" callback", pos, "unexpected callback arity")
+					continue
+				}
+				g := -1
+				why := "no call of the server's verifyFunc precedes the callback"
+				for j := 0; j < i; j++ {
+					if c13Role(p.Evs[j]) != c13TVerify || p.Evs[j].Kind != "call" {
+						continue
+					}
+					if p.passed(j, i) {
+						g = j
+					} else {
+						why = "the error of verifyFunc is not known to be nil when the callback runs (result dropped, or the failing branch falls through)"
+					}
+				}
+				agg.check(name+" verifyFunc→callback", pos, g >= 0, "callback is reachable without a successful verifyFunc: "+why)
+				if g < 0 {
+					continue
+				}
+				ga := p.Evs[g].Args
+				if len(ga) != 3 {
+					agg.unsure(name+" callback id = verified id", pos, "unexpected verifyFunc arity")
+					continue
+				}
+				agg.check(name+" callback id = verified id", pos, p.same(e.Args[2], ga[0]),
+					"the message id handed to the callback is not the id that was verified")
+				k := name + " callback lookup id = verified id"
+				if lks := p.lookupsOf(c13Srv+".msgIDFuncs", i); len(lks) == 0 {
+					agg.unsure(k, pos, "cannot trace the callback to a lookup of server.msgIDFuncs")
+				} else {
+					good := true
+					for _, j := range lks {
+						if !p.same(p.Evs[j].Args[1], ga[0]) {
+							good = false
+						}
+					}
+					agg.check(k, pos, good, "the callback is looked up under a different id than the verified one")
+				}
+				// payload
+				k = name + " payload = UnmarshalNew(verified message)"
+				u, ri := p.producer(e.Args[3])
+				isUM := u >= 0 && ri == 0 && (c13StaticName(p.Evs[u]) == c13AnyPkg+".Any.UnmarshalNew" || c13StaticName(p.Evs[u]) == c13AnyPkg+".UnmarshalNew")
+				switch {
+				case !isUM && p.same(e.Args[3], ga[1]):
+					agg.bad(k, pos, "the payload delivered is the any-wrapper itself, not the UnmarshalNew of the verified any-message")
+				case !isUM:
+					agg.unsure(k, pos, "payload is not the result of an anypb UnmarshalNew call; provenance not recognised")
+				case len(p.Evs[u].Args) == 0 || !p.same(p.Evs[u].Args[0], ga[1]):
+					agg.bad(k, pos, "the any-message that is unmarshalled and delivered is not the one passed to verifyFunc")
+				case !p.passed(u, i):
+					agg.bad(k, pos, "UnmarshalNew error is not checked before delivery")
+				default:
+					agg.ok(k, pos)
+				}
+			}
+		}
+		return t
+	})
+	agg.flush()
+	if seen == 0 {
+		c.Bail("no call through a Callback value on any path of handleMessage")
+	}
+}
+
+// c13DedupRoot: m is the map held in server.dedup, a map looked up in it (nested tables), or a map made on the
+// path that is stored into such a map.
+func (p *c13P) dedupRoot(m *an.Sym, d int) bool {
+	if m == nil || d > 4 {
+		return false
+	}
+	if m.FieldName() == c13Srv+".dedup" {
+		return true
+	}
+	x := m
+	if x.Kind == an.KExtract && len(x.Args) == 1 && x.Index == 0 {
+		x = x.Args[0]
+	}
+	if i, ok := p.def[x.Key()]; ok && p.Evs[i].Kind == "lookup" {
+		return p.dedupRoot(p.Evs[i].Args[0], d+1)
+	}
+	if _, parent := p.storedUnder(m); parent != nil {
+		return p.dedupRoot(parent, d+1)
+	}
+	return false
+}
+
+// storedUnder: the map m made on the path is stored as a value into another map -> (key, that map).
+func (p *c13P) storedUnder(m *an.Sym) (key, parent *an.Sym) {
+	if m == nil || m.Kind != an.KFresh {
+		return nil, nil
+	}
+	for _, e := range p.Evs {
+		if e.Kind == "mapupdate" && len(e.Args) == 3 && an.SymEq(e.Args[2], m) {
+			return e.Args[1], e.Args[0]
+		}
 	}
 	return nil, nil
 }
 
-// c13SliceLit returns the elements of a slice literal value (nil if v is not one).
-func c13SliceLit(v ssa.Value) []ssa.Value {
-	sl, ok := an.Unwrap(v).(*ssa.Slice)
-	if !ok || sl.Low != nil || sl.High != nil {
-		return nil
-	}
-	al, ok := sl.X.(*ssa.Alloc)
-	if !ok {
-		return nil
-	}
-	var out []ssa.Value
-	for _, ref := range *al.Referrers() {
-		switch x := ref.(type) {
-		case *ssa.Slice, *ssa.DebugRef:
-		case *ssa.IndexAddr:
-			n := 0
-			for _, r2 := range *x.Referrers() {
-				if st, ok := r2.(*ssa.Store); ok && st.Addr == ssa.Value(x) {
-					out = append(out, st.Val)
-					n++
-				}
-			}
-			if n != 1 {
-				return nil
-			}
-		default:
-			return nil
-		}
-	}
-	return out
-}
-
-// c13LitFields returns field name -> the only value stored into that field of a freshly allocated struct.
-func c13LitFields(a *ssa.Alloc) map[string]ssa.Value {
-	out := map[string]ssa.Value{}
-	cnt := map[string]int{}
-	for _, ref := range *a.Referrers() {
-		fa, ok := ref.(*ssa.FieldAddr)
-		if !ok {
-			continue
-		}
-		name := an.FieldKey(fa.X.Type(), fa.Field)
-		name = name[strings.LastIndex(name, ".")+1:]
-		for _, r2 := range *fa.Referrers() {
-			if st, ok := r2.(*ssa.Store); ok && st.Addr == ssa.Value(fa) {
-				out[name] = st.Val
-				cnt[name]++
-			}
-		}
-	}
-	for k, n := range cnt {
-		if n != 1 {
-			delete(out, k)
-		}
-	}
-	return out
-}
-
-// c13Reaches: control can flow from just after a to b (same function).
-func c13Reaches(a, b ssa.Instruction) bool {
-	if a.Parent() != b.Parent() {
-		return false
-	}
-	idx := func(in ssa.Instruction) int {
-		for i, x := range in.Block().Instrs {
-			if x == in {
-				return i
-			}
-		}
-		return -1
-	}
-	if a.Block() == b.Block() && idx(a) < idx(b) {
+// keyMentions: the key of an access to table m (key k) involves x: in k, in the derivation of m, or in the key
+// under which m is stored in its parent table.
+func (p *c13P) keyMentions(m, k, x *an.Sym) bool {
+	if p.mentions(k, x) || p.mentions(m, x) {
 		return true
 	}
-	for _, s := range a.Block().Succs {
-		if s == b.Block() || an.CanReach(s, b.Block(), nil) {
+	if k2, parent := p.storedUnder(m); parent != nil {
+		return p.keyMentions(parent, k2, x)
+	}
+	return false
+}
+
+// contains: x occurs structurally in s (operands only; results of lookups and calls are not expanded).
+func (p *c13P) contains(s, x *an.Sym, d int) bool {
+	if s == nil || d > 8 {
+		return false
+	}
+	if p.same(s, x) {
+		return true
+	}
+	for _, a := range s.Args {
+		if p.contains(a, x, d+1) {
 			return true
 		}
 	}
 	return false
 }
 
-// c13Checked wraps an.Guarded for a set of sinks.
-func c13Checked(g ssa.CallInstruction, sinks []ssa.Instruction, opt an.GuardOpt) (bool, string) {
-	for _, s := range sinks {
-		if ok, why := an.Guarded(g, s, opt); !ok {
-			return false, why
+// lookupParts returns the value and presence symbols of lookup event j.
+func (p *c13P) lookupParts(j int) (val, found *an.Sym) {
+	e := p.Evs[j]
+	if lk, ok := e.In.(*ssa.Lookup); ok && lk.CommaOk {
+		return &an.Sym{Kind: an.KExtract, Args: []*an.Sym{e.Res}, Index: 0}, &an.Sym{Kind: an.KExtract, Args: []*an.Sym{e.Res}, Index: 1}
+	}
+	return e.Res, nil
+}
+
+var c13BytesEq = map[string]bool{"bytes.Equal": true, "slices.Equal": true}
+
+// equalKnown: between events from and before, a bytes.Equal/slices.Equal of a and b was evaluated and is known
+// to be true before `before`.
+func (p *c13P) equalKnown(a, b *an.Sym, from, before int) bool {
+	for q := from; q < before && q < len(p.Evs); q++ {
+		e := p.Evs[q]
+		if e.Kind != "call" || !c13BytesEq[c13StaticName(e)] || len(e.Args) != 2 {
+			continue
+		}
+		if !((p.same(e.Args[0], a) && p.same(e.Args[1], b)) || (p.same(e.Args[0], b) && p.same(e.Args[1], a))) {
+			continue
+		}
+		if t, known := p.boolAt(e.Res, before); known && t {
+			return true
 		}
 	}
-	return true, ""
+	return false
 }
 
-func c13Sinks[T ssa.Instruction](xs []T) []ssa.Instruction {
-	var out []ssa.Instruction
-	for _, x := range xs {
-		out = append(out, x)
-	}
-	return out
-}
-
-// ---------------------------------------------------------------------------------------------
-
-func c13(c *rt.Ctx) {
-	c.Rule("B1", 4, func() { c13B1(c) })
-	c.Rule("B2", 4, func() { c13B2(c) })
-	c.Rule("B3", 12, func() { c13B3(c) })
-	c.Rule("B4", 7, func() { c13B4(c) })
-	c.Rule("B5", 9, func() { c13B5(c) })
-	c.Rule("B6", 3, func() { c13B6(c) })
-}
-
-// B1: every invocation of a registered callback is preceded by a checked verifyFunc on the same
-// (id, message); the payload is UnmarshalNew of that message; the callback was looked up under that id.
-func c13B1(c *rt.Ctx) {
-	hm := c.Fn(c13Srv + ".handleMessage")
-	isCB := an.FieldCall(c13Funcs + ".callback")
-	if len(an.Calls(hm, isCB, true)) == 0 {
-		c.Bail("no call through messageIDFuncs.callback in handleMessage")
-	}
-	for _, fn := range an.PkgFuncs(c.SSAPkg(c13Pkg)) {
-		for _, cb := range an.Calls(fn, isCB, false) {
-			name := an.FuncName(fn)
-			name = name[strings.LastIndex(name, ".")+1:]
-			args := cb.Common().Args
-			if len(args) != 4 {
-				c.Unsure(name+" callback", cb.Pos(), "unexpected callback arity")
+// dedupAccepted decides whether, before event i, hash was recorded in (or matched against the entry of) the
+// dedup table under a key bound to both pid and id.
+func (p *c13P) dedupAccepted(i int, pid, id, hash *an.Sym) (bool, string) {
+	why := "signFunc is reached without the hash having been recorded in server.dedup (dedupHash)"
+	for j := 0; j < i; j++ {
+		e := p.Evs[j]
+		switch e.Kind {
+		case "mapupdate":
+			if len(e.Args) != 3 || !p.dedupRoot(e.Args[0], 0) {
 				continue
 			}
-			guards := an.Calls(fn, an.FieldCall(c13Srv+".verifyFunc"), false)
-			var g ssa.CallInstruction
-			why := "no call to s.verifyFunc in the function that invokes the callback"
-			for _, x := range guards {
-				ok, w := an.Guarded(x, cb, an.DefaultGuard)
-				if ok {
-					g = x
+			bound := func(x *an.Sym) bool { return p.keyMentions(e.Args[0], e.Args[1], x) }
+			switch {
+			case !p.same(e.Args[2], hash) && p.dedupRoot(e.Args[2], 0):
+				continue // a nested table being installed; the entry itself is judged at its own update
+			case !p.same(e.Args[2], hash) && p.mentions(e.Args[2], hash):
+				why = "?the value recorded in server.dedup is derived from the hash signed in a way that is not recognised"
+			case !p.same(e.Args[2], hash):
+				why = "the hash deduplicated is not the hash signed"
+			case !bound(id):
+				why = "the id deduplicated is not the id signed"
+			case !bound(pid):
+				why = "dedupHash is not keyed by the requesting peer"
+			default:
+				return true, ""
+			}
+		case "lookup":
+			if len(e.Args) != 2 || !p.dedupRoot(e.Args[0], 0) {
+				continue
+			}
+			bound := func(x *an.Sym) bool { return p.keyMentions(e.Args[0], e.Args[1], x) }
+			if !bound(id) || !bound(pid) {
+				continue
+			}
+			prev, _ := p.lookupParts(j)
+			if p.equalKnown(prev, hash, j, i) {
+				return true, ""
+			}
+		}
+	}
+	return false, why
+}
+
+// B2: on every path of handleSigRequest, signFunc signs the output of hashFunc over the (id, message) that the
+// registered checkMessage accepted, after that hash was recorded in / matched against server.dedup for
+// (requesting peer, id); and the dedup table never replaces an entry by a different hash.
+func c13B2(c *rt.Ctx) {
+	hs := c.Fn(c13Srv + ".handleSigRequest")
+	sites := c13DynSites(c, c13TSign)
+	// everything but the client's own local signing (decided by B6): calls through client.signFunc and calls
+	// executed on the paths of client.Broadcast
+	clientSide := map[ssa.Instruction]bool{}
+	if bc := c.FnOpt(c13Cli + ".Broadcast"); bc != nil {
+		clientSide = c13Trace(bc, 2).res.Visited
+	}
+	var srvSites []ssa.CallInstruction
+	for _, s := range sites {
+		if k, _, ok := an.FieldOf(s.Common().Value); (!ok || k != c13Cli+".signFunc") && !clientSide[s] {
+			srvSites = append(srvSites, s)
+		}
+	}
+	if len(srvSites) == 0 {
+		c.Bail("no call of the server's signFunc in dkg/bcast")
+	}
+	isSrvSite := map[ssa.Instruction]bool{}
+	for _, s := range srvSites {
+		isSrvSite[s] = true
+	}
+	agg := newAgg(c)
+	seen := 0
+	c13Roots(c, agg, hs, srvSites, "dedupHash→signFunc", func(root *ssa.Function) *c13T {
+		name := c13ShortName(root)
+		t := c13Trace(root, 3)
+		if !t.usable() {
+			agg.unsure(name+" dedupHash→signFunc", root.Pos(), "path enumeration failed")
+			return t
+		}
+		var pidP ssa.Value
+		for _, prm := range root.Params {
+			if an.TypeName(prm.Type()) == "github.com/libp2p/go-libp2p/core/peer.ID" {
+				if pidP != nil {
+					pidP = nil
 					break
 				}
-				why = w
-			}
-			c.Check(name+" verifyFunc→callback", cb.Pos(), g != nil, "callback is reachable without a successful verifyFunc: "+why)
-			if g == nil {
-				continue
-			}
-			ga := g.Common().Args
-			c.Check(name+" callback id = verified id", cb.Pos(), c13Same(args[2], ga[0]),
-				"the message id handed to the callback is not the id that was verified")
-			if id := c13LookupID(cb.Common().Value); id == nil {
-				c.Unsure(name+" callback lookup id = verified id", cb.Pos(), "cannot trace the callback to a getMessageIDFunc lookup")
-			} else {
-				c.Check(name+" callback lookup id = verified id", cb.Pos(), c13Same(id, ga[0]),
-					"the callback is looked up under a different id than the verified one")
-			}
-			// payload
-			ex, _ := an.Unwrap(args[3]).(*ssa.Extract)
-			var um *ssa.Call
-			if ex != nil && ex.Index == 0 {
-				um, _ = ex.Tuple.(*ssa.Call)
-			}
-			if um == nil || !an.Static(c13AnyPkg+".Any.UnmarshalNew", c13AnyPkg+".UnmarshalNew")(&um.Call) {
-				c.Unsure(name+" payload = UnmarshalNew(verified message)", cb.Pos(), "payload is not the result of an anypb UnmarshalNew call; provenance not recognised")
-				continue
-			}
-			ok, w := an.Guarded(um, cb, an.DefaultGuard)
-			switch {
-			case !c13Same(um.Call.Args[0], ga[1]):
-				c.Bad(name+" payload = UnmarshalNew(verified message)", cb.Pos(), "the any-message that is unmarshalled and delivered is not the one passed to verifyFunc")
-			case !ok:
-				c.Bad(name+" payload = UnmarshalNew(verified message)", cb.Pos(), "UnmarshalNew error is not checked before delivery: "+w)
-			default:
-				c.Good(name+" payload = UnmarshalNew(verified message)", cb.Pos(), "")
+				pidP = prm
 			}
 		}
-	}
-}
-
-// B2: handleSigRequest order and bindings; dedupHash compare-then-store.
-func c13B2(c *rt.Ctx) {
-	isSign := an.FieldCall(c13Srv + ".signFunc")
-	hs := c.Fn(c13Srv + ".handleSigRequest")
-	if len(an.Calls(hs, isSign, false)) == 0 {
-		c.Bail("no call through server.signFunc in handleSigRequest")
-	}
-	for _, fn := range an.PkgFuncs(c.SSAPkg(c13Pkg)) {
-		for _, sign := range an.Calls(fn, isSign, false) {
-			name := an.FuncName(fn)
-			name = name[strings.LastIndex(name, ".")+1:]
-			sa := sign.Common().Args
-			if len(sa) != 2 || len(fn.Params) < 3 {
-				c.Unsure(name+" signFunc", sign.Pos(), "unexpected shape")
-				continue
-			}
-			// hashFunc → signFunc
-			var hash ssa.CallInstruction
-			for _, h := range an.Calls(fn, an.FieldCall(c13Srv+".hashFunc"), false) {
-				if c13ResultOf(sa[1], h, 0) {
-					hash = h
+		for _, p := range t.paths {
+			for i, e := range p.Evs {
+				if e.Kind != "call" || !isSrvSite[e.In] {
+					continue
 				}
-			}
-			k := name + " hashFunc→signFunc"
-			if hash == nil {
-				c.Bad(k, sign.Pos(), "the value signed is not the output of s.hashFunc")
-				continue
-			}
-			ha := hash.Common().Args
-			if ok, w := an.Guarded(hash, sign, an.DefaultGuard); !ok {
-				c.Bad(k, sign.Pos(), "hashFunc error not checked before signing: "+w)
-			} else {
-				c.Check(k, sign.Pos(), c13Same(sa[0], ha[0]), "the id passed to signFunc is not the id that was hashed")
-			}
-			// dedupHash → signFunc
-			k = name + " dedupHash→signFunc"
-			var why string
-			good := false
-			dd := an.Calls(fn, an.Static(c13Srv+".dedupHash"), false)
-			if len(dd) == 0 {
-				why = "signFunc is reached without dedupHash"
-			}
-			for _, d := range dd {
-				da := d.Common().Args // s, pID, id, hash
-				ok, w := an.Guarded(d, sign, an.DefaultGuard)
+				if root == hs {
+					seen++
+				}
+				pos := e.In.Pos()
+				sa := e.Args
+				if len(sa) != 2 {
+					agg.unsure(name+" signFunc", pos, "unexpected shape")
+					continue
+				}
+				// hashFunc → signFunc
+				k := name + " hashFunc→signFunc"
+				h, ri := p.producer(sa[1])
+				var ha []*an.Sym
 				switch {
-				case !ok:
-					why = "dedupHash is not a checked guard of signFunc: " + w
-				case an.Unwrap(da[3]) != an.Unwrap(sa[1]):
-					why = "the hash deduplicated is not the hash signed"
-				case !c13Same(da[2], sa[0]):
-					why = "the id deduplicated is not the id signed"
-				case !c13Is(da[1], fn.Params[2]):
-					why = "dedupHash is not keyed by the requesting peer"
+				case h < 0 && p.originClass(sa[1]) == c13Unknown:
+					agg.unsure(k, pos, "cannot trace the value signed to a call")
+				case h < 0 || ri != 0 || c13Role(p.Evs[h]) != c13THash:
+					agg.bad(k, pos, "the value signed is not the output of s.hashFunc")
+				case !p.passed(h, i):
+					agg.bad(k, pos, "hashFunc error not checked before signing")
 				default:
-					good = true
+					ha = p.Evs[h].Args
+					agg.check(k, pos, len(ha) == 2 && p.same(sa[0], ha[0]), "the id passed to signFunc is not the id that was hashed")
 				}
-			}
-			c.Check(k, sign.Pos(), good, why)
-			// checkMessage → signFunc
-			k = name + " checkMessage→signFunc"
-			good, why = false, "signFunc is reached without the registered checkMessage"
-			for _, ck := range an.Calls(fn, an.FieldCall(c13Funcs+".checkMessage"), false) {
-				ca := ck.Common().Args // ctx, pID, any
-				ok, w := an.Guarded(ck, sign, an.DefaultGuard)
-				id := c13LookupID(ck.Common().Value)
-				switch {
-				case !ok:
-					why = "checkMessage is not a checked guard of signFunc: " + w
-				case len(ca) != 3 || !c13Same(ca[2], ha[1]):
-					why = "the message checked is not the message hashed and signed"
-				case id == nil:
-					why = ""
-				case !c13Same(id, sa[0]):
-					why = "checkMessage is looked up under a different id than the one signed"
-				default:
-					good = true
-				}
-			}
-			if !good && why == "" {
-				c.Unsure(k, sign.Pos(), "cannot trace checkMessage to a getMessageIDFunc lookup")
-			} else {
-				c.Check(k, sign.Pos(), good, why)
-			}
-		}
-	}
-	c13Dedup(c)
-}
-
-// c13Dedup: in dedupHash the stored hash is written only if no entry exists or the existing entry
-// equals the new hash; otherwise an error is returned.
-func c13Dedup(c *rt.Ctx) {
-	const k = "dedupHash compare-then-store"
-	fn := c.Fn(c13Srv + ".dedupHash")
-	if len(fn.Params) != 4 {
-		c.Bail("dedupHash: unexpected signature")
-	}
-	hashP := fn.Params[3]
-	ups := mapUpdates(fn, isFieldMap(c13Srv+".dedup"))
-	if len(ups) != 1 {
-		c.Bail("dedupHash: expected one write to server.dedup, found %d", len(ups))
-	}
-	up := ups[0]
-	if !c13Is(up.Value, hashP) {
-		c.Bad(k, posOf(up), "the value remembered for (peer, id) is not the hash parameter")
-		return
-	}
-	var lk *ssa.Lookup
-	for _, in := range an.Instrs(fn, false) {
-		if x, ok := in.(*ssa.Lookup); ok && x.CommaOk && isFieldMap(c13Srv+".dedup")(x.X) && an.Equiv(x.Index, up.Key) {
-			lk = x
-		}
-	}
-	if lk == nil || !an.Dominates(lk, up) {
-		c.Bad(k, posOf(up), "the write to dedup is not preceded by a lookup of the same key")
-		return
-	}
-	var prev, found ssa.Value
-	for _, ref := range *lk.Referrers() {
-		if ex, ok := ref.(*ssa.Extract); ok {
-			if ex.Index == 0 {
-				prev = ex
-			} else {
-				found = ex
-			}
-		}
-	}
-	var eq *ssa.Call
-	anyEq := false
-	for _, ci := range an.Calls(fn, an.Static("bytes.Equal", "slices.Equal"), false) {
-		call, ok := ci.(*ssa.Call)
-		if !ok || len(call.Call.Args) != 2 {
-			continue
-		}
-		anyEq = true
-		a, b := an.Unwrap(call.Call.Args[0]), an.Unwrap(call.Call.Args[1])
-		if prev != nil && ((a == prev && c13Is(b, hashP)) || (b == prev && c13Is(a, hashP))) {
-			eq = call
-		}
-	}
-	if eq == nil {
-		if anyEq || prev == nil {
-			c.Bad(k, posOf(up), "the previously stored hash is not compared with the new hash")
-		} else {
-			c.Unsure(k, posOf(up), "no bytes.Equal/slices.Equal comparison recognised in dedupHash")
-		}
-		return
-	}
-	_, _, unknown := c13Exits(fn, 0)
-	if len(unknown) > 0 {
-		c.Unsure(k, posOf(unknown[0]), "cannot classify a return of dedupHash as accepting or rejecting")
-		return
-	}
-	accept, _, _ := c13Exits(fn, 0)
-	// (a) mismatch edge: no store, no accepting return
-	good, why := false, "result of the comparison is never branched on"
-	for _, cd := range an.CondsOn(fn, eq) {
-		if cd.Other != nil {
-			continue
-		}
-		ne := cd.Succ(false)
-		good, why = true, ""
-		if !an.EdgeCuts(ne, up, nil) {
-			good, why = false, "a different hash for the same (peer, id) overwrites the stored one"
-		}
-		for _, r := range accept {
-			if !an.EdgeCuts(ne, r, nil) {
-				good, why = false, "a different hash for the same (peer, id) is accepted (nil error)"
-			}
-		}
-		break
-	}
-	if good && eq.Block() == up.Block() && !an.Dominates(eq, up) {
-		good, why = false, "the hash is stored before it is compared with the previous one"
-	}
-	// (b) when an entry exists the comparison is evaluated before the store / acceptance
-	if good {
-		if found == nil {
-			good, why = false, "presence of a previous entry is not tested"
-		}
-		ok2 := false
-		for _, cd := range an.CondsOn(fn, found) {
-			if cd.Other != nil {
-				continue
-			}
-			ok2 = true
-			if !an.Dominates(cd.If, up) {
-				good, why = false, "the hash is stored before the presence/equality test: a different hash replaces the stored one"
-			}
-			t := cd.Succ(true)
-			avoid := map[*ssa.BasicBlock]bool{eq.Block(): true}
-			if t != eq.Block() && (an.CanReach(t, up.Block(), avoid) || func() bool {
-				for _, r := range accept {
-					if an.CanReach(t, r.Block(), avoid) {
-						return true
+				// dedup → signFunc
+				k = name + " dedupHash→signFunc"
+				if pidP == nil {
+					agg.unsure(k, pos, "cannot identify the requesting peer among the parameters of "+name)
+				} else {
+					pid := &an.Sym{Kind: an.KParam, V: pidP}
+					ok, why := p.dedupAccepted(i, pid, sa[0], sa[1])
+					if !ok && strings.HasPrefix(why, "?") {
+						agg.unsure(k, pos, why[1:])
+					} else {
+						agg.check(k, pos, ok, why)
 					}
 				}
-				return false
-			}()) {
-				good, why = false, "an existing entry can be overwritten or accepted without comparing the hashes"
+				// checkMessage → signFunc
+				k = name + " checkMessage→signFunc"
+				good, unsure, why := false, "", "signFunc is reached without the registered checkMessage"
+				for j := 0; j < i; j++ {
+					ck := p.Evs[j]
+					if ck.Kind != "call" || c13Role(ck) != c13TCheck {
+						continue
+					}
+					lks := p.lookupsOf(c13Srv+".msgIDFuncs", j)
+					idOK := len(lks) > 0
+					for _, l := range lks {
+						if !p.same(p.Evs[l].Args[1], sa[0]) {
+							idOK = false
+						}
+					}
+					switch {
+					case !p.passed(j, i):
+						why = "checkMessage is not a checked guard of signFunc: its error is not known to be nil when signing"
+					case ha != nil && (len(ck.Args) != 3 || !p.same(ck.Args[2], ha[1])):
+						why = "the message checked is not the message hashed and signed"
+					case len(lks) == 0:
+						unsure = "cannot trace checkMessage to a lookup of server.msgIDFuncs"
+					case !idOK:
+						why = "checkMessage is looked up under a different id than the one signed"
+					default:
+						good = true
+					}
+				}
+				if !good && unsure != "" {
+					agg.unsure(k, pos, unsure)
+				} else {
+					agg.check(k, pos, good, why)
+				}
 			}
 		}
-		if good && !ok2 {
-			good, why = false, "presence of a previous entry is not tested"
+		return t
+	})
+	agg.flush()
+	c13Dedup(c, false)
+	if seen == 0 {
+		c.Bail("no call through server.signFunc on any path of handleSigRequest")
+	}
+}
+
+// c13Dedup analyses every function that writes the dedup table. lock == false (rule B2): a hash is stored
+// under a key only if a lookup of that key in the same table said "absent" or the entry found equals the hash
+// stored; an accepting return implies one of the two. lock == true (rule B5): the mutex is not released
+// between that lookup and the store. When the store sits in a helper and the lookup in its caller, the walk is
+// repeated from the in-package callers of the helper.
+func c13Dedup(c *rt.Ctx, lock bool) {
+	funcs := an.PkgFuncs(c.SSAPkg(c13Pkg))
+	var holders []*ssa.Function
+	for _, fn := range funcs {
+		if fn.Parent() == nil && len(mapUpdates(fn, isFieldMap(c13Srv+".dedup"))) > 0 {
+			holders = append(holders, fn)
 		}
 	}
-	c.Check(k, posOf(up), good, why)
+	if len(holders) == 0 {
+		c.Bail("no function writes server.dedup")
+	}
+	callersOf := func(targets []*ssa.Function) []*ssa.Function {
+		isT := map[*ssa.Function]bool{}
+		for _, f := range targets {
+			isT[f] = true
+		}
+		var out []*ssa.Function
+		seen := map[*ssa.Function]bool{}
+		for _, g := range funcs {
+			for _, in := range an.Instrs(g, false) {
+				call, ok := in.(*ssa.Call)
+				if !ok {
+					continue
+				}
+				if f := call.Call.StaticCallee(); f != nil && isT[f] {
+					if o := c13Outer(g); !seen[o] && !isT[o] {
+						seen[o] = true
+						out = append(out, o)
+					}
+				}
+			}
+		}
+		return out
+	}
+	for _, g := range holders {
+		name := c13ShortName(g)
+		k := name + " compare-then-store"
+		if lock {
+			k = name + " lookup+store in one critical section"
+		}
+		roots := []*ssa.Function{g}
+		for depth := 0; ; depth++ {
+			agg := newAgg(c)
+			incomplete := false
+			for _, r := range roots {
+				if c13DedupRoot(c, agg, r, k, lock, depth == 0) {
+					incomplete = true
+				}
+			}
+			up := callersOf(roots)
+			if !incomplete || len(up) == 0 || depth >= 2 {
+				agg.flush()
+				break
+			}
+			roots = up
+		}
+	}
+}
+
+// c13DedupRoot evaluates the dedup obligations on the paths of root; it reports whether some store had no
+// lookup of its key before it on the path (the lookup may sit in a caller).
+func c13DedupRoot(c *rt.Ctx, agg *h1617Agg, g *ssa.Function, k string, lock, own bool) (incomplete bool) {
+	name := c13ShortName(g)
+	t := c13Trace(g, 3)
+	if !t.usable() {
+		agg.unsure(k, g.Pos(), "path enumeration failed")
+		return false
+	}
+	errIdx := -1
+	res := g.Signature.Results()
+	for i := 0; i < res.Len(); i++ {
+		if an.IsErrorType(res.At(i).Type()) {
+			errIdx = i
+		}
+	}
+	pairs, stores := 0, 0
+	for _, p := range t.paths {
+		accepted := false
+		var firstPos token.Pos
+		for w, e := range p.Evs {
+			if e.Kind == "lookup" && len(e.Args) == 2 && p.dedupRoot(e.Args[0], 0) {
+				if !firstPos.IsValid() {
+					firstPos = posOf(e.In)
+				}
+				prev, _ := p.lookupParts(w)
+				for q := w + 1; q < len(p.Evs); q++ {
+					x := p.Evs[q]
+					if x.Kind == "call" && c13BytesEq[c13StaticName(x)] && len(x.Args) == 2 && (p.same(x.Args[0], prev) || p.same(x.Args[1], prev)) {
+						if tv, known := p.boolAt(x.Res, len(p.Evs)); known && tv {
+							accepted = true
+						}
+					}
+				}
+			}
+			if e.Kind != "mapupdate" || len(e.Args) != 3 || !p.dedupRoot(e.Args[0], 0) {
+				continue
+			}
+			accepted = true
+			if e.Args[0].Kind == an.KFresh {
+				continue // a table made on this path has no earlier entries to protect
+			}
+			stores++
+			pos := posOf(e.In)
+			verdict, why := "", "the write to dedup is not preceded by a lookup of the same key: an existing entry can be replaced by a different hash"
+			for j := 0; j < w; j++ {
+				l := p.Evs[j]
+				if l.Kind != "lookup" || len(l.Args) != 2 || !p.same(l.Args[0], e.Args[0]) || !p.same(l.Args[1], e.Args[1]) {
+					continue
+				}
+				if lock {
+					pairs++
+					if verdict == "" {
+						verdict = "good"
+					}
+					for q := j + 1; q < w; q++ {
+						u := p.Evs[q]
+						if u.Kind == "call" && (c13StaticName(u) == "sync.Mutex.Unlock" || c13StaticName(u) == "sync.RWMutex.Unlock") && len(u.Args) == 1 && u.Args[0].FieldName() == c13Srv+".mu" {
+							verdict, why = "bad", "the mutex is released between the lookup of the stored hash and the store: two requests with different hashes can both pass"
+							pos = u.In.Pos()
+						}
+					}
+					continue
+				}
+				prev, found := p.lookupParts(j)
+				switch {
+				case p.equalKnown(prev, e.Args[2], j, w):
+					verdict = "good"
+				case found != nil:
+					tv, known := p.boolAt(found, w)
+					switch {
+					case known && !tv:
+						verdict = "good"
+					case known:
+						verdict, why = "bad", "an existing entry can be overwritten without the stored hash having been found equal to the new one"
+					default:
+						verdict, why = "bad", "the hash is stored before the presence/equality test: a different hash replaces the stored one"
+					}
+				default:
+					tested := false
+					for q := j + 1; q < w; q++ {
+						if b := p.Evs[q]; b.Kind == "branch" && p.contains(b.Args[0], prev, 0) {
+							tested = true
+						}
+					}
+					if isNil, known := p.nilAt(prev, w); known && isNil {
+						verdict = "good"
+					} else if !tested {
+						verdict, why = "bad", "the entry found under the key is never tested before it is replaced: an existing entry can be overwritten"
+					} else if verdict == "" {
+						verdict, why = "unsure", "the outcome of the lookup that precedes the store is tested in a form that is not recognised"
+					}
+				}
+				if verdict == "good" {
+					break
+				}
+			}
+			switch verdict {
+			case "good":
+				agg.ok(k, pos)
+			case "unsure":
+				agg.unsure(k, pos, why)
+			case "bad":
+				agg.bad(k, pos, why)
+			default: // no lookup of the key on this path
+				incomplete = true
+				if !lock {
+					agg.bad(k, pos, why)
+				}
+			}
+		}
+		if !lock && own && errIdx >= 0 && p.End == "return" && errIdx < len(p.Results) {
+			if isNil, known := p.nilAt(p.Results[errIdx], len(p.Evs)); !known {
+				agg.unsure(k, g.Pos(), "cannot classify a return of "+name+" as accepting or rejecting")
+			} else if isNil && !accepted && firstPos.IsValid() {
+				agg.bad(k, firstPos, "a request is accepted (nil error) although its hash was neither stored nor found equal to the stored one")
+			}
+		}
+	}
+	if lock && pairs == 0 {
+		incomplete = true
+		agg.unsure(k, g.Pos(), "no lookup of the key that is stored precedes the store on any path")
+	}
+	if stores == 0 {
+		agg.unsure(k, g.Pos(), "the store into server.dedup is not reached by the path enumeration")
+	}
+	return incomplete
+}
+
+// c13FieldSym: s is the content of struct field key, read directly or through a local that is assigned once
+// with a read of that field (`peers := c.peers`, also when captured by the traced literal).
+func c13FieldSym(s *an.Sym, key string) bool {
+	if s == nil {
+		return false
+	}
+	if s.FieldName() == key {
+		return true
+	}
+	if s.Kind != an.KInit || len(s.Args) != 1 || s.Args[0].Kind != an.KAddr || len(s.Args[0].Args) != 0 {
+		return false
+	}
+	al, ok := s.Args[0].V.(*ssa.Alloc)
+	if !ok {
+		return false
+	}
+	v := c13UniqueStore(al)
+	if v == nil {
+		return false
+	}
+	in, ok := c13Origin(v).(ssa.Instruction)
+	return ok && isLoadOfField(in, key)
+}
+
+// c13ErrClass classifies the error result of a finished path: +1 accepting (nil), -1 rejecting, 0 unknown.
+func (p *c13P) errClass(idx int) int {
+	if p.End != "return" || idx >= len(p.Results) {
+		return 0
+	}
+	isNil, known := p.nilAt(p.Results[idx], len(p.Evs))
+	switch {
+	case !known:
+		return 0
+	case isNil:
+		return 1
+	}
+	return -1
+}
+
+// mentionsLenOf: the expression s contains len(x) for an x satisfying pred.
+func (p *c13P) mentionsLenOf(s *an.Sym, pred func(*an.Sym) bool, d int) bool {
+	if s == nil || d > 6 {
+		return false
+	}
+	if x := p.lenOf(s); x != nil && pred(x) {
+		return true
+	}
+	if s.Kind == an.KOpaque {
+		return false
+	}
+	for _, a := range s.Args {
+		if p.mentionsLenOf(a, pred, d+1) {
+			return true
+		}
+	}
+	return false
+}
+
+// c13ConstIdx: s is a non-negative integer constant.
+func c13ConstIdx(s *an.Sym) (int64, bool) {
+	n, ok := s.IsConstInt()
+	return n, ok && n >= 0
+}
+
+// allowListed decides whether, before event `before`, the allow-list (Component.allowedMsgIDs) was consulted under
+// key id and the entry is known to be present. The test may sit in msgIDAllowed, in any helper or inline.
+func (p *c13P) allowListed(id ssa.Value, before int, what string) (bool, string) {
+	why := what + " without testing msgIDAllowed(msgID)"
+	for j, e := range p.Evs {
+		if j >= before {
+			break
+		}
+		if e.Kind != "lookup" || len(e.Args) != 2 || e.Args[0].FieldName() != c13Comp+".allowedMsgIDs" {
+			continue
+		}
+		if !c13IsParam(e.Args[1], id) {
+			why = "msgIDAllowed is applied to something other than the message id concerned"
+			continue
+		}
+		val, found := p.lookupParts(j)
+		if found == nil {
+			found = val // map[string]bool style
+		}
+		if tv, known := p.boolAt(found, before); known && tv {
+			return true, ""
+		}
+		why = "msgIDAllowed is not a checked guard: the id is not known to be allow-listed at that point"
+	}
+	return false, why
+}
+
+// originThroughCalls resolves v (used at event `at`) through single-assignment cells and, when it is a parameter
+// of a helper the walker stepped into, through the argument at the call that entered the helper.
+func (p *c13P) originThroughCalls(v ssa.Value, at int) ssa.Value {
+	for d := 0; d < 6; d++ {
+		v = c13Origin(v)
+		prm, ok := v.(*ssa.Parameter)
+		if !ok {
+			return v
+		}
+		found := false
+		for j := at - 1; j >= 0; j-- {
+			e := p.Evs[j]
+			if e.Kind != "enter" || e.Callee != prm.Parent() {
+				continue
+			}
+			ci, ok := e.In.(ssa.CallInstruction)
+			if !ok {
+				return v
+			}
+			idx := -1
+			for i, q := range prm.Parent().Params {
+				if q == prm {
+					idx = i
+				}
+			}
+			args := ci.Common().Args
+			if ci.Common().IsInvoke() || idx < 0 || idx >= len(args) {
+				return v
+			}
+			v, at, found = args[idx], j, true
+			break
+		}
+		if !found {
+			return v
+		}
+	}
+	return v
 }
 
 // B3: verifier closure, signer closure, wiring in New.
@@ -849,483 +1211,899 @@ func c13B3(c *rt.Ctx) {
 		c.Bail("verifier: unexpected signature")
 	}
 	idP, anyP, sigsP := vf.Params[0], vf.Params[1], vf.Params[2]
-	accept, _, unknown := c13Exits(vf, 0)
-	for _, r := range unknown {
-		c.Unsure("verifier return", posOf(r), "cannot classify a return of the verifier as accepting or rejecting")
+	const (
+		kLen   = "verifier len(sigs) == len(peers)"
+		kAllow = "verifier msgIDAllowed"
+		kIdx   = "verifier sigs[i] against peers[i] (same index)"
+		kHash  = "verifier hash provenance"
+		kAll   = "verifier every signature checked"
+	)
+	t := c13Trace(vf, 3)
+	if !t.usable() {
+		c.Bail("verifier: path enumeration failed")
 	}
-	if len(accept) == 0 {
-		c.Bail("verifier has no accepting return")
-	}
-	sinks := c13Sinks(accept)
-	isPeers := func(v ssa.Value) bool { return c13FieldLoad(v, c13Comp+".peers") }
-
-	// (1) len(sigs) == len(peers)
-	{
-		ltRej, gtRej := false, false
-		for _, b := range vf.Blocks {
-			iff, ok := b.Instrs[len(b.Instrs)-1].(*ssa.If)
-			if !ok {
-				continue
+	agg := newAgg(c)
+	isPeers := func(s *an.Sym) bool { return c13FieldSym(s, c13Comp+".peers") }
+	isSigs := func(s *an.Sym) bool { return c13IsParam(s, sigsP) }
+	nAccept, nIter, nVerify := 0, 0, 0
+	for _, p := range t.paths {
+		for _, e := range p.Evs {
+			if e.Kind == "call" && c13StaticName(e) == "app/k1util.Verify65" {
+				nVerify++
 			}
-			bin, ok := iff.Cond.(*ssa.BinOp)
-			if !ok {
-				continue
-			}
-			x, y := c13LenArg(bin.X), c13LenArg(bin.Y)
-			if x == nil || y == nil {
-				continue
-			}
-			op := bin.Op
-			switch {
-			case c13Is(x, sigsP) && isPeers(y):
-			case c13Is(y, sigsP) && isPeers(x):
-				switch op { // flip
-				case token.LSS:
-					op = token.GTR
-				case token.GTR:
-					op = token.LSS
-				case token.LEQ:
-					op = token.GEQ
-				case token.GEQ:
-					op = token.LEQ
-				}
-			default:
-				continue
-			}
-			// outcome -> truth of (len(sigs) op len(peers))
-			truth := func(o int) (bool, bool) { // o: -1 lt, +1 gt
-				switch op {
-				case token.EQL:
-					return false, true
-				case token.NEQ:
-					return true, true
-				case token.LSS:
-					return o < 0, true
-				case token.LEQ:
-					return o < 0, true
-				case token.GTR:
-					return o > 0, true
-				case token.GEQ:
-					return o > 0, true
-				}
-				return false, false
-			}
-			for _, o := range []int{-1, 1} {
-				tv, ok := truth(o)
-				if !ok {
+		}
+		end := len(p.Evs)
+		switch p.errClass(0) {
+		case 0:
+			agg.unsure("verifier return", vf.Pos(), "cannot classify a return of the verifier as accepting or rejecting")
+			continue
+		case -1:
+			continue
+		}
+		nAccept++
+		pos := vf.Pos()
+		// (1) len(sigs) == len(peers)
+		{
+			eq, ltRej, gtRej, other := false, false, false, false
+			for _, e := range p.Evs {
+				if e.Kind != "branch" {
 					continue
 				}
-				succ := b.Succs[1]
-				if tv {
-					succ = b.Succs[0]
+				b := e.Args[0]
+				if b.Kind != an.KBin || len(b.Args) != 2 {
+					continue
 				}
-				cut := true
-				for _, r := range accept {
-					if !an.Dominates(iff, r) || !an.EdgeCuts(succ, r, nil) {
-						cut = false
+				x, y := p.lenOf(b.Args[0]), p.lenOf(b.Args[1])
+				if x == nil || y == nil {
+					// len(sigs) tested in a form that is not a plain comparison of two lengths
+					_, isC0 := b.Args[0].IsConstInt()
+					_, isC1 := b.Args[1].IsConstInt()
+					if !isC0 && !isC1 && (p.mentionsLenOf(b.Args[0], isSigs, 0) || p.mentionsLenOf(b.Args[1], isSigs, 0)) {
+						other = true
+					}
+					continue
+				}
+				sx, sy := isSigs(x), isSigs(y)
+				px, py := isPeers(x), isPeers(y)
+				if !(sx || sy) {
+					continue
+				}
+				if !((sx && py) || (sy && px)) {
+					if (sx && p.originClass(y) == c13Unknown && !sy) || (sy && p.originClass(x) == c13Unknown && !sx) {
+						other = true
+					}
+					continue
+				}
+				switch b.Op {
+				case token.EQL:
+					if e.Taken {
+						eq = true
+					}
+				case token.LSS: // x < y
+					if !e.Taken {
+						if sx { // !(len(sigs) < len(peers))
+							ltRej = true
+						} else { // !(len(peers) < len(sigs))
+							gtRej = true
+						}
 					}
 				}
-				if cut {
-					if o < 0 {
-						ltRej = true
-					} else {
-						gtRej = true
-					}
-				}
 			}
-		}
-		why := ""
-		switch {
-		case !ltRej && !gtRej:
-			why = "the verifier accepts without comparing len(sigs) with len(peers)"
-		case !ltRej:
-			why = "the verifier accepts fewer signatures than there are peers: a subset of the members suffices"
-		case !gtRej:
-			why = "the verifier accepts more signatures than there are peers"
-		}
-		c.Check("verifier len(sigs) == len(peers)", posOf(accept[0]), why == "", why)
-	}
-
-	// (2) msgIDAllowed(msgID)
-	{
-		good, why := false, "the verifier accepts without testing msgIDAllowed(msgID)"
-		for _, g := range an.Calls(vf, an.Static(c13Comp+".msgIDAllowed"), false) {
-			if len(g.Common().Args) != 2 || !c13Is(g.Common().Args[1], idP) {
-				why = "msgIDAllowed is applied to something other than the message id being verified"
-				continue
-			}
-			ok, w := c13Checked(g, sinks, an.BoolGuard(0, true))
-			if ok {
-				good = true
-				break
-			}
-			why = "msgIDAllowed is not a checked guard of acceptance: " + w
-		}
-		c.Check("verifier msgIDAllowed", posOf(accept[0]), good, why)
-	}
-
-	// (3)(4) the verification loop
-	vcalls := an.Calls(vf, an.Static("app/k1util.Verify65"), false)
-	if len(vcalls) == 0 {
-		c.Bail("no call to k1util.Verify65 in the verifier closure")
-	}
-	for _, v := range vcalls {
-		va := v.Common().Args // pubkey, hash, sig
-		l := an.InnermostLoop(vf, v.Block())
-		// same index
-		{
-			k := "verifier sigs[i] against peers[i] (same index)"
-			good, why := true, ""
-			sc, si := c13ElemIndex(va[2])
-			var pc, pi ssa.Value
-			if ex, ok := an.Unwrap(va[0]).(*ssa.Extract); ok && ex.Index == 0 {
-				if call, ok := ex.Tuple.(*ssa.Call); ok && an.Static("p2p.PeerIDToKey")(&call.Call) {
-					pc, pi = c13ElemIndex(call.Call.Args[0])
-				}
-			}
+			why := ""
 			switch {
-			case l == nil:
-				good, why = false, "Verify65 is not inside a loop"
-			case sc == nil || !c13Is(sc, sigsP):
-				good, why = false, "the signature verified is not an element of the sigs parameter"
-			case pc == nil:
-				c.Unsure(k, v.Pos(), "public key is not PeerIDToKey of an indexed element; provenance not recognised")
-				good = false
+			case eq || (ltRej && gtRej):
+			case other:
+				agg.unsure(kLen, pos, "len(sigs) is compared with a length whose origin is not recognised")
 				why = "-"
-			case !isPeers(pc):
-				good, why = false, "the public key is not derived from c.peers"
-			case si != pi:
-				good, why = false, "sigs[i] is verified against a peer at a different index"
-			case si != c13LoopIndex(l):
-				good, why = false, "the index is not the loop variable of the enclosing range loop"
+			case !ltRej && !gtRej:
+				why = "the verifier accepts without comparing len(sigs) with len(peers)"
+			case !ltRej:
+				why = "the verifier accepts fewer signatures than there are peers: a subset of the members suffices"
 			default:
-				coll := l.RangeColl()
-				if coll == nil || !(c13Is(coll, sigsP) || isPeers(coll)) {
-					good, why = false, "the loop does not range over sigs (or c.peers)"
-				}
+				why = "the verifier accepts more signatures than there are peers"
 			}
 			if why != "-" {
-				c.Check(k, v.Pos(), good, why)
+				agg.check(kLen, pos, why == "", why)
 			}
 		}
-		// hash provenance
+		// (2) msgIDAllowed(msgID)
 		{
-			k := "verifier hash provenance"
-			good, why := false, "the hash verified is not the output of the captured hashFunc"
-			ex, _ := an.Unwrap(va[1]).(*ssa.Extract)
-			if ex != nil && ex.Index == 0 {
-				if hc, ok := ex.Tuple.(*ssa.Call); ok && hc.Call.StaticCallee() == nil && !hc.Call.IsInvoke() {
-					ha := hc.Call.Args
-					src := c13Origin(hc.Call.Value)
-					ok2, w := an.Guarded(hc, v, an.DefaultGuard)
-					switch {
-					case len(mk.Params) != 2 || src != ssa.Value(mk.Params[1]):
-						why = "the hash function called is not the hashFunc handed to newPeerK1Verifier"
-					case len(ha) != 2 || !c13Is(ha[0], idP):
-						why = "the hash is not computed over the message id being verified"
-					case !c13Is(ha[1], anyP):
-						why = "the hash is not computed over the message being verified"
-					case !ok2:
-						why = "hashFunc error is not checked: " + w
-					default:
-						good = true
-					}
+			good, why := p.allowListed(idP, end, "the verifier accepts")
+			agg.check(kAllow, pos, good, why)
+		}
+		// (3) number of signatures on this path, from the decided bound tests k < len(sigs|peers) (false) or
+		// k == len(sigs|peers) (true)
+		n := int64(-1)
+		for _, e := range p.Evs {
+			l, k, rel, ok := p.boundTest(e)
+			if !ok || k < 0 || !(isSigs(l) || isPeers(l)) {
+				continue
+			}
+			if (rel == "<" && !e.Taken) || (rel == "==" && e.Taken) {
+				if n < 0 || k < n {
+					n = k
 				}
 			}
-			c.Check(k, v.Pos(), good, why)
 		}
-		// forall
-		{
-			k := "verifier every signature checked"
-			good, why := true, ""
-			if l == nil {
-				good, why = false, "Verify65 is not inside a loop"
+		// every verification executed on an accepting path succeeded
+		for _, e := range p.Evs {
+			if e.Kind != "call" || c13StaticName(e) != "app/k1util.Verify65" || len(e.Args) != 3 {
+				continue
+			}
+			tv, known := p.boolAt(c13Result(e, 0), end)
+			switch {
+			case !p.okNil(c13Result(e, 1), end):
+				agg.bad(kAll, e.In.Pos(), "the error result of Verify65 is not known to be nil when the verifier accepts")
+			case !known || !tv:
+				agg.bad(kAll, e.In.Pos(), "the ok result of Verify65 is not known to be true when the verifier accepts (invalid signature accepted)")
+			}
+		}
+		if n < 0 {
+			agg.unsure(kAll, pos, "cannot determine how many signatures an accepting path covers (loop form not recognised)")
+			continue
+		}
+		if n > 0 {
+			nIter++
+		}
+		// the Verify65 calls of the path
+		type vrf struct {
+			at     int
+			sigIdx int64 // -1: not an element of sigs
+		}
+		var vs []vrf
+		unknownSig := false
+		for j, e := range p.Evs {
+			if e.Kind != "call" || c13StaticName(e) != "app/k1util.Verify65" || len(e.Args) != 3 {
+				continue
+			}
+			v := vrf{at: j, sigIdx: -1}
+			if base, idx, ok := c13Elem(e.Args[2]); ok && isSigs(base) {
+				if k, ok := c13ConstIdx(idx); ok {
+					v.sigIdx = k
+				}
+			}
+			if v.sigIdx < 0 {
+				unknownSig = true
+			}
+			vs = append(vs, v)
+		}
+		for i := int64(0); i < n; i++ {
+			var v *vrf
+			for q := range vs {
+				if vs[q].sigIdx == i {
+					v = &vs[q]
+				}
+			}
+			if v == nil {
+				if unknownSig {
+					agg.unsure(kAll, pos, "a signature passed to Verify65 is not recognised as an element of the sigs parameter")
+				} else {
+					agg.bad(kAll, pos, fmt.Sprintf("an accepting path covers %d signature(s) but never verifies sigs[%d] (a signature is skipped)", n, i))
+				}
+				continue
+			}
+			e := p.Evs[v.at]
+			vpos := e.In.Pos()
+			agg.ok(kAll, vpos)
+			// same index
+			kq, ri := p.producer(e.Args[0])
+			if kq < 0 || ri != 0 || c13StaticName(p.Evs[kq]) != "p2p.PeerIDToKey" || len(p.Evs[kq].Args) != 1 {
+				if kq < 0 && p.originClass(e.Args[0]) == c13Unknown {
+					agg.unsure(kIdx, vpos, "public key is not PeerIDToKey of an indexed element; provenance not recognised")
+				} else {
+					agg.bad(kIdx, vpos, "the public key is not derived from c.peers by p2p.PeerIDToKey")
+				}
 			} else {
-				errs, boolv := an.StatusOf(v, 0)
-				if len(errs) == 0 || boolv == nil {
-					good, why = false, "a result of Verify65 is discarded"
+				base, idx, ok := c13Elem(p.Evs[kq].Args[0])
+				k, isC := int64(-1), false
+				if ok {
+					k, isC = c13ConstIdx(idx)
 				}
-				type st struct {
-					v    ssa.Value
-					isB  bool
-					what string
-				}
-				var sts []st
-				for _, e := range errs {
-					sts = append(sts, st{e, false, "error"})
-				}
-				if boolv != nil {
-					sts = append(sts, st{boolv, true, "ok"})
-				}
-				for _, s := range sts {
-					okS, whyS := false, "the "+s.what+" result of Verify65 is never branched on"
-					for _, cd := range an.CondsOn(vf, s.v) {
-						var fail *ssa.BasicBlock
-						if s.isB {
-							if cd.Other != nil {
-								continue
-							}
-							fail = cd.Succ(false)
-						} else {
-							if cd.Other == nil || !an.IsNilConst(cd.Other) {
-								continue
-							}
-							switch cd.Op {
-							case token.NEQ:
-								fail = cd.Succ(true)
-							case token.EQL:
-								fail = cd.Succ(false)
-							default:
-								continue
-							}
-						}
-						all := true
-						for _, r := range accept {
-							if ok, w := an.ForallGuard(l, cd.If, fail, r); !ok {
-								all = false
-								whyS = "the " + s.what + " result of Verify65: " + w
-							}
-						}
-						if all {
-							okS = true
-							break
-						}
-					}
-					if !okS {
-						good, why = false, whyS
-					}
-				}
-				if good {
-					for _, la := range l.Latches {
-						if !v.Block().Dominates(la) {
-							good, why = false, "an iteration can complete without calling Verify65 (a signature is skipped)"
-						}
-					}
+				switch {
+				case !ok:
+					agg.unsure(kIdx, vpos, "public key is not PeerIDToKey of an indexed element; provenance not recognised")
+				case !isPeers(base):
+					agg.bad(kIdx, vpos, "the public key is not derived from c.peers")
+				case !isC || k != i:
+					agg.bad(kIdx, vpos, "sigs[i] is verified against a peer at a different index")
+				case !p.passed(kq, v.at):
+					agg.bad(kIdx, vpos, "PeerIDToKey error is not checked")
+				default:
+					agg.ok(kIdx, vpos)
 				}
 			}
-			c.Check(k, v.Pos(), good, why)
+			// hash provenance
+			hq, ri := p.producer(e.Args[1])
+			switch {
+			case hq < 0 && p.originClass(e.Args[1]) == c13Unknown:
+				agg.unsure(kHash, vpos, "cannot trace the hash verified to a call")
+			case hq < 0 || ri != 0 || c13Role(p.Evs[hq]) != c13THash:
+				agg.bad(kHash, vpos, "the hash verified is not the output of the captured hashFunc")
+			default:
+				h := p.Evs[hq]
+				org := p.originThroughCalls(h.In.(ssa.CallInstruction).Common().Value, hq)
+				src, _ := org.(*ssa.Parameter)
+				switch {
+				case src == nil || src.Parent() != mk:
+					if src != nil {
+						agg.unsure(kHash, vpos, "the hash function is handed through a helper; origin not traced")
+					} else {
+						agg.bad(kHash, vpos, "the hash function called is not the hashFunc handed to newPeerK1Verifier")
+					}
+				case len(h.Args) != 2 || !c13IsParam(h.Args[0], idP):
+					agg.bad(kHash, vpos, "the hash is not computed over the message id being verified")
+				case !c13IsParam(h.Args[1], anyP):
+					agg.bad(kHash, vpos, "the hash is not computed over the message being verified")
+				case !p.passed(hq, v.at):
+					agg.bad(kHash, vpos, "hashFunc error is not checked")
+				default:
+					agg.ok(kHash, vpos)
+				}
+			}
 		}
+	}
+	if nIter == 0 && nAccept > 0 && nVerify > 0 {
+		agg.unsure(kAll, vf.Pos(), "no accepting path that covers at least one signature could be enumerated")
+	}
+	agg.flush()
+	if nVerify == 0 {
+		c.Bail("no call to k1util.Verify65 on any path of the verifier")
+	}
+	if nAccept == 0 {
+		c.Bail("verifier has no accepting path")
 	}
 
 	// signer
+	sfn := c13Returned(c, c.Fn(c13Comp+".newK1Signer"))
 	{
-		sf := c13Returned(c, c.Fn(c13Comp+".newK1Signer"))
-		signs := an.Calls(sf, an.Static("app/k1util.Sign"), false)
-		if len(signs) == 0 || len(sf.Params) != 2 {
-			c.Bail("no call to k1util.Sign in the signer closure")
+		sf := sfn
+		if len(sf.Params) != 2 {
+			c.Bail("signer: unexpected signature")
 		}
-		for _, s := range signs {
-			good, why := false, "the signer signs without testing msgIDAllowed(msgID)"
-			for _, g := range an.Calls(sf, an.Static(c13Comp+".msgIDAllowed"), false) {
-				if len(g.Common().Args) != 2 || !c13Is(g.Common().Args[1], sf.Params[0]) {
-					why = "msgIDAllowed is applied to something other than the id being signed"
+		ts := c13Trace(sf, 3)
+		if !ts.usable() {
+			c.Bail("signer: path enumeration failed")
+		}
+		sagg := newAgg(c)
+		nSign := 0
+		const k = "signer msgIDAllowed→Sign"
+		for _, p := range ts.paths {
+			for i, e := range p.Evs {
+				if e.Kind != "call" || c13StaticName(e) != "app/k1util.Sign" {
 					continue
 				}
-				ok, w := an.Guarded(g, s, an.BoolGuard(0, true))
-				if ok {
-					good = true
-					break
+				nSign++
+				good, why := p.allowListed(sf.Params[0], i, "the signer signs")
+				if good && (len(e.Args) != 2 || !c13IsParam(e.Args[1], sf.Params[1])) {
+					good, why = false, "the signer signs something other than the hash it was given"
 				}
-				why = "msgIDAllowed is not a checked guard of k1util.Sign: " + w
+				sagg.check(k, e.In.Pos(), good, why)
 			}
-			if good && !c13Is(s.Common().Args[1], sf.Params[1]) {
-				good, why = false, "the signer signs something other than the hash it was given"
-			}
-			c.Check("signer msgIDAllowed→Sign", s.Pos(), good, why)
 		}
+		if nSign == 0 {
+			c.Bail("no call to k1util.Sign on any path of the signer")
+		}
+		sagg.flush()
 	}
 
 	// wiring
-	{
-		nw := c.Fn(c13Pkg + ".New")
-		if len(nw.Params) != 4 {
-			c.Bail("New: unexpected signature")
+	c13Wiring(c, vf, sfn)
+}
+
+// c13Wiring decides, on the paths of New (constructors and helpers stepped into): the server and the client
+// objects built there hold one and the same (hash, sign, verify) triple; the hash closure is bound to New's
+// session hash; signer and verifier are bound to the component that New returns; the verifier is bound to
+// that very hash closure; the client iterates over the same peer list as the component (index convention).
+func c13Wiring(c *rt.Ctx, vf, sf *ssa.Function) {
+	const (
+		kSess = "New wiring: hash bound to session"
+		kComp = "New wiring: verifier and signer of one component"
+		kSrv  = "New wiring: server"
+		kCli  = "New wiring: client"
+	)
+	nw := c.Fn(c13Pkg + ".New")
+	hfn := c13Returned(c, c.Fn(c13Pkg+".newHashAny"))
+	var sessP, peersP ssa.Value
+	for _, prm := range nw.Params {
+		switch an.TypeName(prm.Type()) {
+		case "[]byte":
+			if sessP != nil {
+				c.Bail("New: more than one []byte parameter")
+			}
+			sessP = prm
+		case "[]github.com/libp2p/go-libp2p/core/peer.ID":
+			if peersP != nil {
+				c.Bail("New: more than one []peer.ID parameter")
+			}
+			peersP = prm
 		}
-		ver := c.OneCall(nw, an.Static(c13Comp+".newPeerK1Verifier"), "newPeerK1Verifier", false)
-		hf, _ := c13Origin(ver.Common().Args[1]).(*ssa.Call)
-		if hf == nil || !an.Static(c13Pkg+".newHashAny")(&hf.Call) {
-			c.Unsure("New wiring: hash bound to session", ver.Pos(), "the hash function given to newPeerK1Verifier is not a direct result of newHashAny")
-			return
+	}
+	if sessP == nil || peersP == nil {
+		c.Bail("New: session hash or peers parameter not found")
+	}
+	t := c13Trace(nw, 2)
+	if !t.usable() {
+		c.Bail("New: path enumeration failed")
+	}
+	agg := newAgg(c)
+	pos := nw.Pos()
+	nObj := 0
+	for _, p := range t.paths {
+		if p.End != "return" || len(p.Results) != 1 {
+			continue
 		}
-		sg := c.OneCall(nw, an.Static(c13Comp+".newK1Signer"), "newK1Signer", false)
-		srv := c.OneCall(nw, an.Static(c13Pkg+".newServer"), "newServer", false)
-		cl := c.OneCall(nw, an.Static(c13Pkg+".newClient"), "newClient", false)
-		is := func(v ssa.Value, call ssa.CallInstruction) bool { return c13Origin(v) == ssa.Value(call.Value()) }
-		c.Check("New wiring: hash bound to session", hf.Pos(), c13Is(hf.Common().Args[0], nw.Params[3]),
-			"newHashAny is not given the sessionHash parameter")
-		c.Check("New wiring: verifier and signer of one component", ver.Pos(), c13Same(ver.Common().Args[0], sg.Common().Args[0]),
-			"signer and verifier are built on different components (different allow-lists / keys)")
-		sa, ca := srv.Common().Args, cl.Common().Args
-		c.Check("New wiring: server", srv.Pos(), len(sa) == 4 && is(sa[1], sg) && is(sa[2], hf) && is(sa[3], ver),
-			"newServer is not given the (signer, session hash, verifier) triple built here")
-		c.Check("New wiring: client", cl.Pos(), len(ca) == 7 && is(ca[4], hf) && is(ca[5], sg) && is(ca[6], ver) && c13Same(ca[1], nw.Params[1]),
-			"newClient is not given the (session hash, signer, verifier) triple built here")
-		// constructors store their parameters in the like-named fields
-		for _, t := range []struct {
-			fn, typ string
-			par     map[string]int
-		}{
-			{c13Pkg + ".newServer", c13Srv, map[string]int{"signFunc": 1, "hashFunc": 2, "verifyFunc": 3}},
-			{c13Pkg + ".newClient", c13Cli, map[string]int{"hashFunc": 4, "signFunc": 5, "verifyFunc": 6, "peers": 1}},
-		} {
-			f := c.Fn(t.fn)
-			good, why := true, ""
-			var lit *ssa.Alloc
-			for _, in := range an.Instrs(f, false) {
-				if a, ok := in.(*ssa.Alloc); ok && an.TypeName(a.Type()) == t.typ {
-					lit = a
+		comp := p.Results[0]
+		end := len(p.Evs)
+		// content of a closure binding: captured variables are cells, bound receivers are values
+		content := func(b *an.Sym) *an.Sym {
+			if b != nil && b.Kind == an.KAddr {
+				if v := p.cellValue(b.Cell, "", end, 0); v != nil {
+					return v
 				}
 			}
-			if lit == nil {
-				c.Unsure("New wiring: "+t.fn+" fields", f.Pos(), "constructor does not build its value with a composite literal")
+			return b
+		}
+		isClosureOf := func(v *an.Sym, fn *ssa.Function) bool { return v != nil && v.Kind == an.KClosure && v.Fn == fn }
+		// boundTo: some binding of closure cl (or of a closure bound into it) satisfies pred; unknown reports a
+		// binding whose content the path does not determine
+		var boundTo2 func(cl *an.Sym, pred func(*an.Sym) bool, d int) (found, unknown bool)
+		boundTo2 = func(cl *an.Sym, pred func(*an.Sym) bool, d int) (found, unknown bool) {
+			for _, b := range cl.Args {
+				v := content(b)
+				if pred(b) || pred(v) {
+					return true, false
+				}
+				switch {
+				case v != nil && v.Kind == an.KClosure && d < 3:
+					f, u := boundTo2(v, pred, d+1)
+					if f {
+						return true, false
+					}
+					unknown = unknown || u
+				case v != nil && v.Kind != an.KParam && p.originClass(v) == c13Unknown:
+					unknown = true
+				}
+			}
+			return false, unknown
+		}
+		boundTo := func(cl *an.Sym, pred func(*an.Sym) bool) bool { f, _ := boundTo2(cl, pred, 0); return f }
+		boundUnknown := func(cl *an.Sym, pred func(*an.Sym) bool) bool { f, u := boundTo2(cl, pred, 0); return !f && u }
+		isComp := func(v *an.Sym) bool { return an.SymEq(v, comp) }
+		// every hash closure made on the path is bound to the session hash
+		for _, e := range p.Evs {
+			for _, v := range append(append([]*an.Sym{}, e.Args...), e.Res) {
+				if isClosureOf(v, hfn) {
+					isSess := func(x *an.Sym) bool { return c13IsParam(x, sessP) }
+					if boundUnknown(v, isSess) {
+						agg.unsure(kSess, pos, "cannot determine what the hash closure is bound to")
+					} else {
+						agg.check(kSess, pos, boundTo(v, isSess), "newHashAny is not given the sessionHash parameter")
+					}
+				}
+			}
+		}
+		// the server and client objects
+		objs := map[string]*an.Sym{}
+		var order []string
+		for _, e := range p.Evs {
+			if e.Kind != "store" || len(e.Args) != 2 || e.Args[0].Kind != an.KAddr || len(e.Args[0].Args) != 1 {
 				continue
 			}
-			fields := c13LitFields(lit)
-			var names []string
-			for n := range t.par {
-				names = append(names, n)
-			}
-			sort.Strings(names)
-			for _, n := range names {
-				if v, ok := fields[n]; !ok || t.par[n] >= len(f.Params) || !c13Is(v, f.Params[t.par[n]]) {
-					good, why = false, fmt.Sprintf("field %s is not initialised from the constructor's parameter", n)
+			f := e.Args[0].Field
+			if strings.HasPrefix(f, c13Srv+".") || strings.HasPrefix(f, c13Cli+".") {
+				base := e.Args[0].Args[0]
+				k := f[:strings.LastIndex(f, ".")] + "@" + base.Key()
+				if objs[k] == nil {
+					objs[k] = base
+					order = append(order, k)
 				}
 			}
-			c.Check("New wiring: "+t.fn+" fields", f.Pos(), good, why)
 		}
+		var triple [3]*an.Sym // hash, sign, verify of the first object; the others must agree
+		for _, k := range order {
+			nObj++
+			isSrv := strings.HasPrefix(k, c13Srv+"@")
+			kk := kCli
+			what := "newClient"
+			if isSrv {
+				kk, what = kSrv, "newServer"
+			}
+			f := p.fieldStores(objs[k], end)
+			h, sg, vr := f["hashFunc"], f["signFunc"], f["verifyFunc"]
+			why := ""
+			switch {
+			case h == nil || sg == nil || vr == nil:
+				agg.unsure(kk, pos, "a function field of the object built by "+what+" is not assigned on the path")
+				continue
+			case !isClosureOf(h, hfn):
+				why = what + " is not given the session-bound hash function built by newHashAny"
+			case !isClosureOf(sg, sf):
+				why = what + " is not given the signer built by newK1Signer"
+			case !isClosureOf(vr, vf):
+				why = what + " is not given the verifier built by newPeerK1Verifier"
+			case boundUnknown(vr, func(x *an.Sym) bool { return an.SymEq(x, h) }):
+				agg.unsure(kk, pos, "cannot determine which hash function the verifier given to "+what+" is bound to")
+				continue
+			case !boundTo(vr, func(x *an.Sym) bool { return an.SymEq(x, h) }):
+				why = "the verifier given to " + what + " is not bound to the hash function given to " + what
+			case triple[0] != nil && !(an.SymEq(triple[0], h) && an.SymEq(triple[1], sg) && an.SymEq(triple[2], vr)):
+				why = "client and server are not given one and the same (hash, sign, verify) triple"
+			case !isSrv && (f["peers"] == nil || !c13IsParam(f["peers"], peersP)):
+				why = "newClient is not given the peers parameter of New"
+			}
+			if triple[0] == nil {
+				triple = [3]*an.Sym{h, sg, vr}
+			}
+			agg.check(kk, pos, why == "", why)
+			if why != "" {
+				continue
+			}
+			// one component, one peer list
+			cf := map[string]*an.Sym{}
+			if comp.Kind == an.KAddr {
+				cf = p.fieldStores(comp, end)
+				if whole := p.cellValue(comp.Cell, "", end, 0); whole != nil && whole.Kind == an.KStruct {
+					for i, v := range whole.Fields {
+						name := an.FieldKey(c13TypeOfAddr(comp), i)
+						name = name[strings.LastIndex(name, ".")+1:]
+						if cf[name] == nil {
+							cf[name] = v
+						}
+					}
+				}
+			}
+			switch {
+			case boundUnknown(sg, isComp) || boundUnknown(vr, isComp):
+				agg.unsure(kComp, pos, "cannot determine which component the signer or the verifier is bound to")
+			case !boundTo(sg, isComp) || !boundTo(vr, isComp):
+				agg.bad(kComp, pos, "signer and verifier are not both built on the component that New returns (different allow-lists / keys)")
+			case cf["peers"] == nil:
+				agg.unsure(kComp, pos, "cannot find the peer list of the component that New returns")
+			case !c13IsParam(cf["peers"], peersP):
+				agg.bad(kComp, pos, "the component (verifier) and the client do not iterate over the same peer list")
+			default:
+				agg.ok(kComp, pos)
+			}
+		}
+	}
+	agg.flush()
+	if nObj < 2 {
+		c.Unsure(kSrv, pos, "New does not build both a server and a client object on its paths")
 	}
 }
 
-// B4: the hash closure of newHashAny.
+// c13Lit is a collection whose elements are determined on the path: a local array (possibly sliced in full), or
+// a chain of appends of enumerated elements onto an empty slice.
+type c13Lit struct {
+	arr   *an.Sym   // the array object (elements are found among the stores of the path)
+	elems []*an.Sym // or the appended elements
+	n     int64
+}
+
+func c13LitOf(x *an.Sym, d int) (c13Lit, bool) {
+	if x == nil || d > 3 {
+		return c13Lit{}, false
+	}
+	if x.Kind == an.KAppend {
+		base, elems, spread := an.AppendElems(x)
+		if spread {
+			return c13Lit{}, false
+		}
+		empty := base == nil || base.IsNil()
+		if !empty && base.Kind == an.KFresh {
+			if ms, ok := base.V.(*ssa.MakeSlice); ok {
+				if n, isC := an.ConstInt(ms.Len); isC && n == 0 {
+					empty = true
+				}
+			}
+		}
+		if !empty {
+			if l, ok := c13LitOf(base, d+1); ok && l.n == 0 {
+				empty = true
+			}
+		}
+		if !empty {
+			return c13Lit{}, false
+		}
+		return c13Lit{elems: elems, n: int64(len(elems))}, true
+	}
+	if x.Kind == an.KFresh {
+		if ms, ok := x.V.(*ssa.MakeSlice); ok {
+			if n, isC := an.ConstInt(ms.Len); isC {
+				return c13Lit{elems: []*an.Sym{}, n: n}, true // make([]T, n): elements are assigned through the path's memory
+			}
+		}
+		return c13Lit{}, false
+	}
+	if x.Kind == an.KPure && x.Name == "slice" && len(x.Args) == 3 && x.Args[1] == nil && x.Args[2] != nil {
+		if hi, isC := x.Args[2].IsConstInt(); isC && hi >= 0 {
+			// s[:0], make([]T, n, k): the elements are assigned through the path's memory
+			return c13Lit{elems: []*an.Sym{}, n: hi}, true
+		}
+	}
+	if x.Kind == an.KPure && x.Name == "slice" && len(x.Args) == 3 && x.Args[1] == nil && x.Args[2] == nil {
+		x = x.Args[0]
+	}
+	if x == nil || x.Kind != an.KAddr {
+		return c13Lit{}, false
+	}
+	al, isAlloc := x.V.(*ssa.Alloc)
+	if !isAlloc {
+		return c13Lit{}, false
+	}
+	ptr, isPtr := al.Type().Underlying().(*types.Pointer)
+	if !isPtr {
+		return c13Lit{}, false
+	}
+	at, isArr := ptr.Elem().Underlying().(*types.Array)
+	if !isArr {
+		return c13Lit{}, false
+	}
+	return c13Lit{arr: x, n: at.Len()}, true
+}
+
+// c13BoundTest decodes a decided branch that compares an integer constant with len(x): it returns x, and the
+// truth the branch asserts for the relation rel(k, len(x)) with rel one of "<" (k < len), ">" (k > len), "==".
+func (p *c13P) boundTest(e an.Ev) (x *an.Sym, k int64, rel string, ok bool) {
+	if e.Kind != "branch" {
+		return nil, 0, "", false
+	}
+	b := e.Args[0]
+	if b.Kind != an.KBin || len(b.Args) != 2 || (b.Op != token.LSS && b.Op != token.EQL) {
+		return nil, 0, "", false
+	}
+	if kk, isC := b.Args[0].IsConstInt(); isC {
+		if l := p.lenOf(b.Args[1]); l != nil {
+			if b.Op == token.EQL {
+				return l, kk, "==", true
+			}
+			return l, kk, "<", true
+		}
+	}
+	if kk, isC := b.Args[1].IsConstInt(); isC {
+		if l := p.lenOf(b.Args[0]); l != nil {
+			if b.Op == token.EQL {
+				return l, kk, "==", true
+			}
+			return l, kk, ">", true // len < k
+		}
+	}
+	return nil, 0, "", false
+}
+
+// lenArgIndexed: the branch base b compares with len(v) where the program value v is somewhere indexed or ranged
+// over (a collection that is iterated), as opposed to a value whose length is merely inspected.
+func (p *c13P) lenArgIndexed(b *an.Sym) bool {
+	for _, a := range b.Args {
+		if a == nil || a.Kind != an.KOpaque {
+			continue
+		}
+		i, ok := p.def[a.Key()]
+		if !ok || p.Evs[i].Kind != "builtin" || p.Evs[i].Name != "len" {
+			continue
+		}
+		call, ok := p.Evs[i].In.(*ssa.Call)
+		if !ok || len(call.Call.Args) != 1 {
+			continue
+		}
+		v := call.Call.Args[0]
+		refs := v.Referrers()
+		if refs == nil {
+			return true // parameter-less value without referrer list: be conservative
+		}
+		for _, r := range *refs {
+			switch x := r.(type) {
+			case *ssa.IndexAddr:
+				if x.X == v {
+					return true
+				}
+			case *ssa.Index:
+				if x.X == v {
+					return true
+				}
+			case *ssa.Range:
+				return true
+			}
+		}
+	}
+	return false
+}
+
+// litBounds inspects the decided comparisons of a constant with len(x): infeasible if one contradicts the known
+// length of a literal; unresolved if the length of some x is not known (the path may or may not be feasible).
+func (p *c13P) litBounds() (infeasible, unresolved bool) {
+	for _, e := range p.Evs {
+		x, k, rel, ok := p.boundTest(e)
+		if !ok {
+			continue
+		}
+		lit, isLit := c13LitOf(x, 0)
+		if !isLit {
+			if p.lenArgIndexed(e.Args[0]) {
+				unresolved = true // the length of a collection that is iterated by index is not known
+			}
+			continue
+		}
+		var truth bool
+		switch rel {
+		case "<":
+			truth = k < lit.n
+		case ">":
+			truth = k > lit.n
+		default:
+			truth = k == lit.n
+		}
+		if truth != e.Taken {
+			infeasible = true
+		}
+	}
+	return
+}
+
+// litElem resolves a load of literal[k] to the element's value before event `before`; s itself if it is not an
+// indexed load.
+func (p *c13P) litElem(s *an.Sym, before int) (out *an.Sym, resolved bool) {
+	base, idx, ok := c13Elem(s)
+	if !ok {
+		return s, true
+	}
+	lit, isLit := c13LitOf(base, 0)
+	if !isLit {
+		return s, false
+	}
+	if lit.arr == nil {
+		if k, isC := idx.IsConstInt(); isC && k >= 0 && k < int64(len(lit.elems)) {
+			return lit.elems[k], true
+		}
+		return s, false
+	}
+	val := p.cellValue(lit.arr.Cell, "["+idx.Key()+"]", before, 0)
+	if val == nil {
+		return s, false
+	}
+	return val, true
+}
+
+// cellValue returns the value last stored (before event `before`) into cell+suffix, looking through whole-value
+// copies of the enclosing object (`tmp := [4]T{...}; arr = tmp`).
+func (p *c13P) cellValue(cell, suffix string, before, d int) *an.Sym {
+	if d > 4 {
+		return nil
+	}
+	for j := before - 1; j >= 0; j-- {
+		if j >= len(p.Evs) {
+			continue
+		}
+		e := p.Evs[j]
+		if e.Kind != "store" || len(e.Args) != 2 || e.Args[0].Kind != an.KAddr {
+			continue
+		}
+		switch e.Args[0].Cell {
+		case cell + suffix:
+			return e.Args[1]
+		case cell:
+			if v := e.Args[1]; v != nil && v.Kind == an.KInit && suffix != "" {
+				return p.cellValue(v.Cell, suffix, j, d+1)
+			}
+			return nil
+		}
+	}
+	return nil
+}
+
+var c13PutLen = map[string]bool{
+	"encoding/binary.bigEndian.PutUint64": true, "encoding/binary.littleEndian.PutUint64": true,
+	"encoding/binary.bigEndian.PutUint32": true, "encoding/binary.littleEndian.PutUint32": true,
+}
+
+var c13AppendLen = map[string]bool{
+	"encoding/binary.bigEndian.AppendUint64": true, "encoding/binary.littleEndian.AppendUint64": true,
+	"encoding/binary.bigEndian.AppendUint32": true, "encoding/binary.littleEndian.AppendUint32": true,
+}
+
+// B4: on every successful path of the hash closure the hasher absorbs, in order, pairs (length of field, field)
+// and nothing else; the fields absorbed include the session hash, the message id, the type URL and the value of
+// the any-message; every successful path absorbs the same fields; the result is the Sum of that hasher.
 func c13B4(c *rt.Ctx) {
 	mk := c.Fn(c13Pkg + ".newHashAny")
 	hf := c13Returned(c, mk)
 	if len(hf.Params) != 2 || len(mk.Params) != 1 {
 		c.Bail("newHashAny: unexpected signature")
 	}
-	hcall := c.OneCall(hf, an.Static("crypto/sha256.New"), "sha256.New", false)
-	h := ssa.Value(hcall.Value())
-	onH := func(v ssa.Value) bool { return an.Unwrap(v) == h }
-	accept, _, unknown := c13Exits(hf, 1)
-	for _, r := range unknown {
-		c.Unsure("newHashAny return", posOf(r), "cannot classify a return of the hash closure")
+	const (
+		kDigest = "newHashAny result is the digest"
+		kPrefix = "newHashAny length prefix"
+		kEvery  = "newHashAny every field absorbed"
+	)
+	roleNames := []string{"session hash", "message id", "type URL", "value"}
+	roleWhy := []string{
+		"the session hash does not flow into the digest: signatures from another ceremony verify",
+		"the message id does not flow into the digest: signatures can be replayed under another id",
+		"the any type URL does not flow into the digest",
+		"the any value (payload bytes) does not flow into the digest",
 	}
-	if len(accept) == 0 {
-		c.Bail("hash closure has no successful return")
+	t := c13Trace(hf, 8)
+	if !t.usable() {
+		c.Bail("hash closure: path enumeration failed")
 	}
-	// result is h.Sum
-	for _, r := range accept {
-		good := false
-		if call, ok := an.Unwrap(c13RetVal(r, 0)).(*ssa.Call); ok && call.Call.IsInvoke() && call.Call.Method.Name() == "Sum" && onH(call.Call.Value) {
-			good = true
+	agg := newAgg(c)
+	anyP := hf.Params[1]
+	getter := func(p *c13P, s *an.Sym, name, field string) bool {
+		if q, ri := p.producer(s); q >= 0 && ri == 0 && c13StaticName(p.Evs[q]) == c13AnyPkg+".Any."+name {
+			return len(p.Evs[q].Args) == 1 && c13IsParam(p.Evs[q].Args[0], anyP)
 		}
-		c.Check("newHashAny result is the digest", posOf(r), good, "the value returned on success is not h.Sum of the hasher that absorbed the fields")
+		return s.FieldName() == c13AnyPkg+".Any."+field && s.Kind == an.KInit && len(s.Args) == 1 && len(s.Args[0].Args) == 1 && c13IsParam(s.Args[0].Args[0], anyP)
 	}
-	var writes []ssa.CallInstruction
-	for _, ci := range an.Calls(hf, func(cc *ssa.CallCommon) bool {
-		return cc.IsInvoke() && cc.Method.Name() == "Write" && onH(cc.Value) && len(cc.Args) == 1
-	}, false) {
-		writes = append(writes, ci)
+	role := func(p *c13P, s *an.Sym) int {
+		switch {
+		case c13IsParam(s, mk.Params[0]):
+			return 0
+		case c13IsParam(s, hf.Params[0]):
+			return 1
+		case getter(p, s, "GetTypeUrl", "TypeUrl"):
+			return 2
+		case getter(p, s, "GetValue", "Value"):
+			return 3
+		}
+		return -1
 	}
-	if len(writes) == 0 {
-		c.Bail("no h.Write in the hash closure")
-	}
-	var fields []ssa.Value
-	for _, w := range writes {
-		arg := w.Common().Args[0]
-		l := an.InnermostLoop(hf, w.Block())
-		if l != nil && l.ElemOf(arg) {
-			el := c13SliceLit(l.RangeColl())
-			if el == nil {
-				c.Unsure("newHashAny field list", w.Pos(), "h.Write ranges over something other than a slice literal")
-				return
+	var wpos token.Pos
+	nAccept := 0
+	roleSeen := [4]bool{}
+	unknownField := ""
+	var firstSet map[string]bool
+	setsDiffer, openLoop := false, false
+	for _, p := range t.paths {
+		infeasible, unresolved := p.litBounds()
+		if p.errClass(1) != 1 || infeasible {
+			if p.errClass(1) == 0 {
+				agg.unsure("newHashAny return", hf.Pos(), "cannot classify a return of the hash closure")
 			}
-			fields = append(fields, el...)
+			continue
+		}
+		if unresolved {
+			openLoop = true
+		}
+		// the hasher
+		var h *an.Sym
+		for _, e := range p.Evs {
+			if e.Kind == "call" && c13StaticName(e) == "crypto/sha256.New" && h == nil {
+				h = e.Res
+			}
+		}
+		if h == nil {
+			agg.unsure(kDigest, hf.Pos(), "no sha256.New on a successful path of the hash closure")
+			continue
+		}
+		nAccept++
+		onH := func(s *an.Sym) bool { return an.SymEq(s, h) }
+		// result
+		{
+			q, _ := p.producer(p.Results[0])
+			good := q >= 0 && c13InvokeName(p.Evs[q]) == "Sum" && len(p.Evs[q].Args) >= 1 && onH(p.Evs[q].Args[0])
+			rp := hf.Pos()
+			if q >= 0 {
+				rp = p.Evs[q].In.Pos()
+			}
+			agg.check(kDigest, rp, good, "the value returned on success is not h.Sum of the hasher that absorbed the fields")
+		}
+		// absorption sequence
+		type item struct {
+			isLen bool
+			field *an.Sym // the field written / whose length is written; nil: not recognised
+			at    int
+		}
+		var items []item
+		for j, e := range p.Evs {
+			if e.Kind != "call" {
+				continue
+			}
+			switch {
+			case c13InvokeName(e) == "Write" && len(e.Args) == 2 && onH(e.Args[0]):
+				if !wpos.IsValid() {
+					wpos = e.In.Pos()
+				}
+				x := e.Args[1]
+				// a length encoded into a scratch buffer?
+				var lenField *an.Sym
+				isBuf := false
+				for q := 0; q < j; q++ {
+					pe := p.Evs[q]
+					if pe.Kind == "call" && c13PutLen[c13StaticName(pe)] && len(pe.Args) == 3 && p.same(pe.Args[1], x) {
+						isBuf = true
+						lenField = p.lenOf(pe.Args[2])
+					}
+				}
+				if q, ri := p.producer(x); q >= 0 && ri == 0 && c13AppendLen[c13StaticName(p.Evs[q])] && len(p.Evs[q].Args) == 3 {
+					isBuf = true
+					lenField = p.lenOf(p.Evs[q].Args[2])
+				}
+				if isBuf {
+					items = append(items, item{isLen: true, field: lenField, at: j})
+				} else {
+					items = append(items, item{field: x, at: j})
+				}
+			case c13StaticName(e) == "encoding/binary.Write" && len(e.Args) == 3 && onH(e.Args[0]):
+				if !wpos.IsValid() {
+					wpos = e.In.Pos()
+				}
+				items = append(items, item{isLen: true, field: p.lenOf(e.Args[2]), at: j})
+			}
+		}
+		if len(items) == 0 {
+			agg.unsure(kPrefix, hf.Pos(), "no write into the hasher on a successful path")
+			continue
+		}
+		set := map[string]bool{}
+		for q := 0; q < len(items); q++ {
+			it := items[q]
+			pos := p.Evs[it.at].In.Pos()
+			if it.isLen {
+				switch {
+				case it.field == nil:
+					agg.unsure(kPrefix, pos, "a fixed-size value that is not recognised as the length of a field is written into the hasher")
+				case q+1 >= len(items) || items[q+1].isLen:
+					agg.bad(kPrefix, pos, "a length prefix is not followed by its field")
+				default:
+					nx := items[q+1]
+					npos := p.Evs[nx.at].In.Pos()
+					a, _ := p.litElem(it.field, it.at)
+					b, _ := p.litElem(nx.field, nx.at)
+					if p.same(it.field, nx.field) || p.same(a, b) {
+						agg.ok(kPrefix, npos)
+					} else {
+						agg.bad(kPrefix, npos, "the length prefix written is not the length of the field that follows")
+					}
+				}
+				continue
+			}
+			if q == 0 || !items[q-1].isLen {
+				agg.bad(kPrefix, pos, "the field written is not preceded by its length")
+			}
+			f, resolved := p.litElem(it.field, it.at)
+			set[p.ck(f)] = true
+			switch r := role(p, f); {
+			case r >= 0:
+				roleSeen[r] = true
+			case !resolved || p.originClass(f) == c13Unknown:
+				unknownField = "a field written into the hasher could not be resolved to its source (" + f.Key() + ")"
+			}
+		}
+		if firstSet == nil {
+			firstSet = set
+		} else if len(set) != len(firstSet) {
+			setsDiffer = true
 		} else {
-			fields = append(fields, arg)
-		}
-		// length prefix
-		good, why := false, "the field written is not preceded by its length"
-		bws := an.Calls(hf, func(cc *ssa.CallCommon) bool {
-			return an.Static("encoding/binary.Write")(cc) && len(cc.Args) == 3 && onH(cc.Args[0])
-		}, false)
-		if len(bws) == 0 && len(writes) > 1 {
-			// lengths are written some other way (PutUint64 into a buffer, ...): idiom not recognised
-			c.Unsure("newHashAny length prefix", w.Pos(), "no binary.Write into the hasher; length-prefix idiom not recognised")
-			return
-		}
-		for _, bw := range bws {
-			ba := bw.Common().Args
-			if len(ba) != 3 || !onH(ba[0]) {
-				continue
-			}
-			if la := c13LenArg(ba[2]); la == nil || la != arg {
-				why = "the length prefix written is not the length of the field that follows"
-				continue
-			}
-			if ok, wy := an.Guarded(bw, w, an.DefaultGuard); !ok {
-				why = "length prefix write is not checked before the field: " + wy
-				continue
-			}
-			if an.InnermostLoop(hf, bw.Block()) != nil && l != nil && an.InnermostLoop(hf, bw.Block()).Header != l.Header {
-				continue
-			}
-			good = true
-			break
-		}
-		c.Check("newHashAny length prefix", w.Pos(), good, why)
-		// every field: no iteration skips the write, no early successful exit from the loop
-		if l != nil {
-			good, why = true, ""
-			for _, la := range l.Latches {
-				if !w.Block().Dominates(la) {
-					good, why = false, "an iteration can skip absorbing its field (ambiguous concatenation)"
+			for k := range set {
+				if !firstSet[k] {
+					setsDiffer = true
 				}
 			}
-			for b := range l.Body {
-				for _, s := range b.Succs {
-					if l.Body[s] || b == l.Header {
-						continue
-					}
-					for _, r := range accept {
-						if s == r.Block() || an.CanReach(s, r.Block(), nil) {
-							good, why = false, "the loop over the fields can be left early and still return a digest"
-						}
-					}
-				}
-			}
-			for _, r := range accept {
-				if l.Body[r.Block()] || !l.Header.Dominates(r.Block()) {
-					good, why = false, "a digest is returned without running the loop over all fields"
-				}
-			}
-			c.Check("newHashAny every field absorbed", w.Pos(), good, why)
 		}
 	}
-	has := func(pred func(v ssa.Value) bool) bool {
-		for _, f := range fields {
-			if pred(f) {
-				return true
-			}
-		}
-		return false
+	agg.flush()
+	if nAccept == 0 {
+		c.Bail("hash closure has no successful path (after pruning infeasible loop exits)")
 	}
-	getter := func(name string) func(v ssa.Value) bool {
-		return func(v ssa.Value) bool {
-			call, ok := an.Unwrap(v).(*ssa.Call)
-			if ok && an.Static(c13AnyPkg+".Any."+name)(&call.Call) {
-				return c13Is(call.Call.Args[0], hf.Params[1])
-			}
-			return false
+	if !wpos.IsValid() {
+		c.Bail("no write into the hasher in the hash closure")
+	}
+	if setsDiffer && openLoop {
+		c.Unsure(kEvery, wpos, "the fields are absorbed in a loop over a collection whose length is not determined on the path")
+	} else {
+		c.Check(kEvery, wpos, !setsDiffer, "successful paths absorb different sets of fields: an iteration can skip its field or the loop can be left early and still return a digest (ambiguous concatenation)")
+	}
+	for r := range roleNames {
+		k := "newHashAny absorbs " + roleNames[r]
+		switch {
+		case roleSeen[r]:
+			c.Good(k, wpos, "")
+		case unknownField != "":
+			c.Unsure(k, wpos, unknownField)
+		default:
+			c.Bad(k, wpos, roleWhy[r])
 		}
 	}
-	pos := writes[0].Pos()
-	c.Check("newHashAny absorbs session hash", pos, has(func(v ssa.Value) bool { return c13Origin(v) == ssa.Value(mk.Params[0]) }),
-		"the session hash does not flow into the digest: signatures from another ceremony verify")
-	c.Check("newHashAny absorbs message id", pos, has(func(v ssa.Value) bool { return c13Is(v, hf.Params[0]) }),
-		"the message id does not flow into the digest: signatures can be replayed under another id")
-	c.Check("newHashAny absorbs type URL", pos, has(getter("GetTypeUrl")), "the any type URL does not flow into the digest")
-	c.Check("newHashAny absorbs value", pos, has(getter("GetValue")), "the any value (payload bytes) does not flow into the digest")
 }
 
 // B5: lock discipline.
@@ -1404,173 +2182,187 @@ func c13B5(c *rt.Ctx) {
 			c.Bad("lock-free access "+n, pos, "touches guarded state without taking the mutex ("+strings.Join(ls.Requires[n], ", ")+") and is "+why)
 		}
 	}
-	// dedup lookup and store in one critical section
-	fn := c.Fn(c13Srv + ".dedupHash")
-	ups := mapUpdates(fn, isFieldMap(c13Srv+".dedup"))
-	var lks []*ssa.Lookup
-	for _, in := range an.Instrs(fn, false) {
-		if x, ok := in.(*ssa.Lookup); ok && isFieldMap(c13Srv+".dedup")(x.X) {
-			lks = append(lks, x)
-		}
-	}
-	if len(ups) == 0 || len(lks) == 0 {
-		c.Bail("dedupHash: lookup or store of server.dedup not found")
-	}
-	good, why := true, ""
-	var at token.Pos = posOf(ups[0])
-	for _, u := range an.Calls(fn, an.Static("sync.Mutex.Unlock", "sync.RWMutex.Unlock"), false) {
-		if _, isDefer := u.(*ssa.Defer); isDefer {
-			continue
-		}
-		for _, lk := range lks {
-			for _, up := range ups {
-				if c13Reaches(lk, u) && c13Reaches(u, up) {
-					good, why, at = false, "the mutex is released between the lookup of the stored hash and the store: two requests with different hashes can both pass", u.Pos()
-				}
-			}
-		}
-	}
-	c.Check("dedupHash lookup+store in one critical section", at, good, why)
+	// dedup lookup and store in one critical section (every function that writes the table)
+	c13Dedup(c, true)
 }
 
 // B6: the client sends what it verified.
 func c13B6(c *rt.Ctx) {
 	fn := c.Fn(c13Cli + ".Broadcast")
-	if len(fn.Params) != 4 {
-		c.Bail("client.Broadcast: unexpected signature")
+	const (
+		kVerify = "Broadcast verifyFunc→sendFunc"
+		kMsg    = "Broadcast sent message = verified (id, message, signatures)"
+		kLocal  = "Broadcast local signature over the verified message at the local index"
+	)
+	isSend := func(e an.Ev) bool {
+		return e.Kind == "call" && (c13Role(e) == c13TSend || e.Name == "field:"+c13Cli+".sendFunc")
 	}
-	sends := c.SomeCalls(fn, an.FieldCall(c13Cli+".sendFunc"), "c.sendFunc", true)
-	verifs := an.Calls(fn, an.FieldCall(c13Cli+".verifyFunc"), false)
-	var verify ssa.CallInstruction
-	for _, send := range sends {
-		if send.Parent() != fn {
-			c.Unsure("Broadcast verifyFunc→sendFunc", send.Pos(), "sendFunc is called from a function literal")
-			continue
-		}
-		var g ssa.CallInstruction
-		why := "the broadcast message is sent without c.verifyFunc"
-		for _, v := range verifs {
-			ok, w := an.Guarded(v, send, an.DefaultGuard)
-			if ok {
-				g = v
-				break
+	t := c13Trace(fn, 2)
+	if !t.usable() {
+		c.Bail("client.Broadcast: path enumeration failed")
+	}
+	agg := newAgg(c)
+	nSend, nSign := 0, 0
+	for _, p := range t.paths {
+		lastV := -1 // the verification that guards a send on this path
+		for i, e := range p.Evs {
+			if !isSend(e) {
+				continue
 			}
-			why = "c.verifyFunc is not a checked guard of the send: " + w
-		}
-		c.Check("Broadcast verifyFunc→sendFunc", send.Pos(), g != nil, why)
-		if g == nil {
-			continue
-		}
-		verify = g
-		va := g.Common().Args
-		k := "Broadcast sent message = verified (id, message, signatures)"
-		if len(send.Common().Args) < 5 {
-			c.Unsure(k, send.Pos(), "unexpected sendFunc arity")
-			continue
-		}
-		lit, ok := an.Unwrap(send.Common().Args[4]).(*ssa.Alloc)
-		if !ok || an.TypeName(lit.Type()) != "dkg/dkgpb/v1.BCastMessage" {
-			c.Unsure(k, send.Pos(), "the message sent is not a BCastMessage literal built in Broadcast")
-			continue
-		}
-		f := c13LitFields(lit)
-		why = ""
-		switch {
-		case f["Id"] == nil || !c13Same(f["Id"], va[0]):
-			why = "the id sent is not the id verified"
-		case f["Message"] == nil || !c13Same(f["Message"], va[1]):
-			why = "the message sent is not the message verified"
-		case f["Signatures"] == nil || !c13Same(f["Signatures"], va[2]):
-			why = "the signatures sent are not the signatures verified"
-		}
-		c.Check(k, send.Pos(), why == "", why)
-	}
-	if verify == nil {
-		return
-	}
-	va := verify.Common().Args
-	// local signature
-	k := "Broadcast local signature over the verified message at the local index"
-	signs := an.Calls(fn, an.FieldCall(c13Cli+".signFunc"), false)
-	if len(signs) == 0 {
-		c.Bail("no call through client.signFunc in Broadcast")
-	}
-	for _, sign := range signs {
-		sa := sign.Common().Args
-		why := ""
-		var hc ssa.CallInstruction
-		for _, h := range an.Calls(fn, an.FieldCall(c13Cli+".hashFunc"), false) {
-			if c13ResultOf(sa[1], h, 0) {
-				hc = h
+			nSend++
+			pos := e.In.Pos()
+			g := -1
+			why := "the broadcast message is sent without c.verifyFunc"
+			for j := 0; j < i; j++ {
+				if p.Evs[j].Kind != "call" || c13Role(p.Evs[j]) != c13TVerify {
+					continue
+				}
+				if p.passed(j, i) {
+					g = j
+				} else {
+					why = "c.verifyFunc is not a checked guard of the send: its error is not known to be nil when sending"
+				}
 			}
+			agg.check(kVerify, pos, g >= 0, why)
+			if g < 0 {
+				continue
+			}
+			lastV = g
+			va := p.Evs[g].Args
+			if len(e.Args) < 5 || len(va) != 3 {
+				agg.unsure(kMsg, pos, "unexpected sendFunc arity")
+				continue
+			}
+			msg := e.Args[4]
+			if msg.Kind != an.KAddr || an.TypeName(c13TypeOfAddr(msg)) != "dkg/dkgpb/v1.BCastMessage" {
+				agg.unsure(kMsg, pos, "the message sent is not a BCastMessage built on the path")
+				continue
+			}
+			f := p.fieldStores(msg, i)
+			why = ""
+			switch {
+			case f["Id"] == nil || !p.same(f["Id"], va[0]):
+				why = "the id sent is not the id verified"
+			case f["Message"] == nil || !p.same(f["Message"], va[1]):
+				why = "the message sent is not the message verified"
+			case f["Signatures"] == nil || !p.same(f["Signatures"], va[2]):
+				why = "the signatures sent are not the signatures verified"
+			}
+			agg.check(kMsg, pos, why == "", why)
 		}
-		var store *ssa.Store
-		if sign.Value() != nil {
-			for _, ref := range *sign.Value().Referrers() {
-				if ex, ok := ref.(*ssa.Extract); ok && ex.Index == 0 {
-					for _, r2 := range *ex.Referrers() {
-						if st, ok := r2.(*ssa.Store); ok && st.Val == ssa.Value(ex) {
-							store = st
+		if lastV < 0 {
+			continue
+		}
+		va := p.Evs[lastV].Args
+		// local signature(s) that precede the verification
+		for i := 0; i < lastV; i++ {
+			e := p.Evs[i]
+			if e.Kind != "call" || c13Role(e) != c13TSign {
+				continue
+			}
+			nSign++
+			pos := e.In.Pos()
+			sa := e.Args
+			if len(sa) != 2 {
+				agg.unsure(kLocal, pos, "unexpected signFunc arity")
+				continue
+			}
+			h, ri := p.producer(sa[1])
+			if h < 0 && p.originClass(sa[1]) == c13Unknown {
+				agg.unsure(kLocal, pos, "cannot trace the value signed locally to a call")
+				continue
+			}
+			why := ""
+			switch {
+			case h < 0 || ri != 0 || c13Role(p.Evs[h]) != c13THash:
+				why = "the local signature is not over the output of c.hashFunc"
+			case !p.passed(h, i):
+				why = "hashFunc error not checked before signing locally"
+			case len(p.Evs[h].Args) != 2 || !p.same(p.Evs[h].Args[0], va[0]) || !p.same(p.Evs[h].Args[1], va[1]):
+				why = "the hash signed locally is not the hash of the (id, message) that is verified and sent"
+			case !p.same(sa[0], va[0]):
+				why = "the local signature is requested under a different id"
+			}
+			if why != "" {
+				agg.bad(kLocal, pos, why)
+				continue
+			}
+			sig := c13Result(e, 0)
+			st := -1
+			for j := i + 1; j < lastV; j++ {
+				x := p.Evs[j]
+				if x.Kind == "store" && len(x.Args) == 2 && p.same(x.Args[1], sig) {
+					if a := x.Args[0]; a.Kind == an.KAddr && len(a.Args) == 2 {
+						st = j
+					}
+				}
+			}
+			if st < 0 {
+				agg.unsure(kLocal, pos, "cannot find where the local signature is placed into a signature list")
+				continue
+			}
+			addr := p.Evs[st].Args[0]
+			base, idx := addr.Args[0], addr.Args[1]
+			switch {
+			case !p.same(base, va[2]):
+				why = "the local signature is not stored into the list that is verified"
+			case !p.passed(i, st):
+				why = "signFunc error not checked"
+			default:
+				// the slot is the index of the local peer: peers[idx] == p2pNode.ID() is known to hold
+				onEq, sawTest, sawID := false, false, false
+				for j := 0; j < st; j++ {
+					b := p.Evs[j]
+					if b.Kind != "branch" {
+						continue
+					}
+					x := b.Args[0]
+					if x.Kind != an.KBin || x.Op != token.EQL || len(x.Args) != 2 {
+						continue
+					}
+					for _, pr := range [][2]*an.Sym{{x.Args[0], x.Args[1]}, {x.Args[1], x.Args[0]}} {
+						q, _ := p.producer(pr[0])
+						if q < 0 || c13InvokeName(p.Evs[q]) != "ID" || len(p.Evs[q].Args) == 0 || !c13FieldSym(p.Evs[q].Args[0], c13Cli+".p2pNode") {
+							continue
+						}
+						sawID = true
+						eb, ei, ok := c13Elem(pr[1])
+						if !ok || !c13FieldSym(eb, c13Cli+".peers") {
+							continue
+						}
+						sawTest = true
+						if b.Taken && p.same(ei, idx) {
+							onEq = true
 						}
 					}
 				}
-			}
-		}
-		switch {
-		case hc == nil:
-			why = "the local signature is not over the output of c.hashFunc"
-		case !c13Same(hc.Common().Args[0], va[0]) || !c13Same(hc.Common().Args[1], va[1]):
-			why = "the hash signed locally is not the hash of the (id, message) that is verified and sent"
-		case !c13Same(sa[0], va[0]):
-			why = "the local signature is requested under a different id"
-		case store == nil:
-			why = "the local signature is not stored into the signature list"
-		}
-		if why == "" {
-			ia, ok := store.Addr.(*ssa.IndexAddr)
-			l := an.InnermostLoop(fn, store.Block())
-			okG, w := an.Guarded(sign, store, an.DefaultGuard)
-			switch {
-			case !ok || !c13Same(ia.X, va[2]):
-				why = "the local signature is not stored into the list that is verified"
-			case l == nil || !c13FieldLoad(l.RangeColl(), c13Cli+".peers"):
-				why = "the local signature is not placed while ranging over c.peers"
-			case ia.Index != c13LoopIndex(l):
-				why = "the local signature is not stored at the index of the local peer"
-			case !okG:
-				why = "signFunc error not checked: " + w
-			default:
-				// on the equal edge of p2pNode.ID() == peers[i]
-				onEq := false
-				for b := range l.Body {
-					iff, ok := b.Instrs[len(b.Instrs)-1].(*ssa.If)
-					if !ok {
-						continue
-					}
-					bin, ok := iff.Cond.(*ssa.BinOp)
-					if !ok || (bin.Op != token.EQL && bin.Op != token.NEQ) {
-						continue
-					}
-					isSelf := func(v ssa.Value) bool {
-						call, ok := an.Unwrap(v).(*ssa.Call)
-						return ok && call.Call.IsInvoke() && call.Call.Method.Name() == "ID" && c13FieldLoad(call.Call.Value, c13Cli+".p2pNode")
-					}
-					if !((isSelf(bin.X) && l.ElemOf(bin.Y)) || (isSelf(bin.Y) && l.ElemOf(bin.X))) {
-						continue
-					}
-					eq := b.Succs[0]
-					if bin.Op == token.NEQ {
-						eq = b.Succs[1]
-					}
-					if len(eq.Preds) == 1 && eq.Dominates(store.Block()) {
-						onEq = true
-					}
-				}
-				if !onEq {
+				switch {
+				case onEq:
+				case sawTest:
+					why = "the local signature is not stored at the index of the local peer"
+				case sawID:
 					why = "the local signature is not stored on the `p2pNode.ID() == peers[i]` edge"
+				default:
+					agg.unsure(kLocal, pos, "cannot find the test that identifies the local peer's slot")
+					continue
 				}
 			}
+			agg.check(kLocal, pos, why == "", why)
 		}
-		c.Check(k, sign.Pos(), why == "", why)
 	}
+	agg.flush()
+	if nSend == 0 {
+		c.Bail("no call to c.sendFunc on any path of client.Broadcast")
+	}
+	if nSign == 0 {
+		c.Unsure(kLocal, fn.Pos(), "no call through client.signFunc precedes a successful verification on any path of client.Broadcast")
+	}
+}
+
+// c13TypeOfAddr: static type of the object a KAddr symbol of an executed Alloc points to.
+func c13TypeOfAddr(s *an.Sym) types.Type {
+	if s == nil || s.V == nil {
+		return nil
+	}
+	return s.V.Type()
 }
